@@ -5,6 +5,8 @@ import XV.Lemmas.UndoFee
 import XV.Lemmas.UndoBlock
 import XV.Lemmas.UndoWalk
 import XV.Lemmas.PlayWalk
+import XV.Lemmas.RefinePlay
+import XV.Lemmas.RefineReplay
 /-!
 C01 — the state at a block is a pure function of its chain: undoing exactly cancels playing.
 
@@ -33,9 +35,7 @@ state of the destination, whatever branch the node came from.
 
 The walk theorems hold for pruning and non-pruning walks alike (the refinement does not look at the irreversible
 height; what a walk does to it is C17). `play_invariant`: `play` with an empty pool keeps the node on the canonical
-state. Not proved here: `play` with a non-empty pool and `playForMiner` against the canonical state (they need the
-commutation of independent transactions), and the induction over whole histories; for those the correspondence
-check and the fresh-replica oracle stand (the registry text says what is partial).
+state.
 
 The ghost log and the chain. `ChainLog e s C`: the ghost log `C` of `XV.C02.Ledger` is the transactions of the blocks on
 the path root..pointer. It holds at genesis and is kept by `doTx`, `play`, `playForMiner` (`ChainLog_genesis`,
@@ -48,6 +48,21 @@ The joint invariant — `XV.C02.LedgerAll` (tokens and key versions over one gho
 by every operation: `LedgerAll_chain_genesis`, `doTx_LedgerAll_chain`, `play_LedgerAll_chain`,
 `playForMiner_LedgerAll_chain`, and `walk_LedgerAll_chain_full` (every outcome of a walk; `hre` in the weaker form "token
 input or key write").
+state.
+
+The refinement layer and the closing induction (helper lemmas in Lemmas/Refine*.lean: the table operations as a "swap
+system" — adjacent independent operations commute, validity included — and what a list of operations can do to a row / a
+key version). `play_refines`: `play` with a NON-EMPTY pool — eviction of the conflicting transactions and their
+dependents, pending members skipped, rolled-back members re-applied — takes "state refines canon(tip) + pool, pool valid"
+to the same at the new tip with the surviving pool; `playForMiner_refines`: the same for the miner's own block (award +
+a prefix of the pool); `doTx_refines`: one admission. `chain_refines` (`EnvOK`, `Inv`, `HOp`, `hrun`, `OpOK` / `HistOK`,
+`step_invariant`, `genesis_inv`, `chain_observables`): after ANY history of submissions, peers' blocks, own blocks and
+walks — refused operations and failing walks included — the node's observable tables are those of the replay of the chain
+genesis..tip on a fresh node followed by the pending pool in admission order. `undo_cancels_apply_history`: walking away
+and back restores the observables. `accepted_block_replayable_refuted`: a block that `play` accepts is NOT always
+accepted by a fresh replica (a pending member that only reads a key an earlier new transaction of the block overwrites is
+skipped by the node) — hence `chain_refines` takes "every chain of the tree can be replayed" as a hypothesis on the
+environment; `accepted_block_replayable_partial`: with `NoStaleMember` it is.
 -/
 namespace XV.C01
 open XV.Chain XV.C02
@@ -2419,5 +2434,1411 @@ example : (walk kcEnv kcS6 0 15 false).2 = false ∧ (walk kcEnv kcS6 0 15 false
     LedgerAll kcEnv (walk kcEnv kcS6 0 15 false).1 [100, 8, 1] ∧
     ChainLog kcEnv (walk kcEnv kcS6 0 15 false).1 [100, 8, 1] :=
   ⟨kcW15_fail, by decide, by decide, by decide, by decide, kcW15_all, kcW15_chain⟩
+-- ================================================================== `play` with a non-empty pool: the refinement
+
+private theorem txWF_iff (e : Env) (i : Nat) : TxWF e i ↔ WF e i :=
+  ⟨fun h => ⟨h.id, h.self, h.kout⟩, fun h => ⟨h.id, h.self, h.kout⟩⟩
+
+private theorem poolValid_iff (e : Env) (l : List Nat) (s : St) : PoolValid e l s ↔ PoolOK e l s := by
+  induction l generalizing s with
+  | nil => exact Iff.rfl
+  | cons i rest ih =>
+    unfold PoolValid PoolOK
+    rw [ih, txWF_iff]
+    exact Iff.rfl
+
+/-- **`play` (`PlayAndRepost`) with a NON-EMPTY pool keeps the node on "canonical state + pool".** Block tree with parent
+links strictly down in height; `b` is known to the environment under its id. With `R = canon e g s.pointer` the
+canonical state of the tip: the state refines "`R`, then the pool applied in admission order" (`hs`); the pool satisfies
+the side conditions of the transaction theorems on `R` (`PoolValid`) and has no repetition; the chain of the tip and the
+block `b` on top of it satisfy the side conditions of the block theorem (`ChainValid`, `BlockValid`: `b` can be replayed on
+`R` — a fresh replica accepts it); identifiers are fresh: no row and no key version of `R` carries the id of a pending
+transaction or of a transaction of the block (`hfreshU`, `hfreshV`; the rows of the block's ids are in `BlockValid`); the
+rows of `R` carry the frozen heights their transactions declare and the pending transactions cite them (`FrozenInv`,
+`StaticFrozen`: the frozen height of a spent row is not compared by the code, see DESIGN.md).
+
+Then, if `play` ACCEPTS `b` — whatever it evicts (the conflicting pending transactions and the closure of their
+dependents, undone newest first), skips (the pending members of the block) and re-applies (members rolled back as
+dependents) —: the pointer is `b.id`; the state refines "the canonical state of `b`, then the NEW pool applied in order";
+the new pool is the old one without the block's and the evicted transactions, and satisfies `PoolValid` on the canonical
+state of `b` — the precondition is re-established, so admissions, walks and further blocks can follow. -/
+theorem play_refines (e : Env) (s : St) (lh : Int) (b : Block) (g : St) (hpl : ParentLower e)
+    (hb : e.block b.id = b) (hok : (play e s lh b).2 = .ok) (hinv : KVInv e g)
+    (hchain : ChainValid e (ancestors e (e.blocks.length + 1) s.pointer).reverse g)
+    (hblk : BlockValid e (canon e g s.pointer) b)
+    (hpool : PoolValid e s.pool (canon e g s.pointer)) (hnd : s.pool.Nodup)
+    (hs : TRefines s (applyPool e s.pool (canon e g s.pointer)))
+    (hfreshU : ∀ i ∈ s.pool, ∀ o, lookup (canon e g s.pointer).U (i, o) = none)
+    (hfreshV : ∀ i ∈ s.pool ++ b.txs, ∀ k o, curVer (canon e g s.pointer) k ≠ some (i, o))
+    (hfz : FrozenInv e (canon e g s.pointer)) (hsf : ∀ i ∈ s.pool, StaticFrozen e i) :
+    (play e s lh b).1.pointer = b.id ∧
+    TRefines (play e s lh b).1 (applyPool e (play e s lh b).1.pool (canon e g b.id)) ∧
+    PoolValid e (play e s lh b).1.pool (canon e g b.id) ∧
+    (play e s lh b).1.pool = s.pool.filter (fun i => !b.txs.contains i && !(playEvict e s b).contains i) := by
+  have hR := replayChain_KVInv e _ g hchain hinv
+  have hP := (poolValid_iff e _ _).mp hpool
+  have hwP := hP.wf
+  -- the eviction is the roll-back of a suffix
+  obtain ⟨tE, pK, pEv⟩ := play_evict_form e s b (canon e g s.pointer) hP hnd hfreshU hfz hsf
+  have hKV : KVInv e (applyPool e (s.pool.filter (fun i => !(playEvict e s b).contains i)) (canon e g s.pointer)) :=
+    applyPool_KVInv e _ _ (fun i hi => (hwP i (List.mem_filter.mp hi).1).id) hR
+  have hs1 : TRefines (playUndone e s b)
+      (applyPool e (s.pool.filter (fun i => !(playEvict e s b).contains i)) (canon e g s.pointer)) := by
+    rw [playUndone_eq]
+    exact rollback_applyPool e _ _ ((poolValid_iff e _ _).mpr pEv) hKV s (hs.trans tE.trefines)
+  -- the block
+  obtain ⟨lhb, s2b, hfwd⟩ := hblk.fwd
+  have hB := pValid_of_applyBlockTxs e lhb b.prop b.txs _ s2b hfwd
+  have hwB : ∀ i ∈ b.txs, WF e i := fun i hi => (txWF_iff e i).mp (hblk.wf i hi)
+  have hfU : ∀ i ∈ s.pool ++ b.txs, ∀ o, lookup (canon e g s.pointer).U (i, o) = none := by
+    intro i hi o
+    rcases List.mem_append.mp hi with h | h
+    · exact hfreshU i h o
+    · exact hblk.fresh i h o
+  obtain ⟨a1, a2, a3⟩ := play_absorb_form e s lh b (canon e g s.pointer) hok hP hnd pK hs1 hB hwB hblk.nodup hfU
+    hfreshV hfz hsf
+  obtain ⟨s2, _, hshape⟩ := play_ok_raw e s lh b hok
+  have hpre : b.pre = some s.pointer := by
+    unfold play at hok
+    by_cases h1 : b.pre ≠ some s.pointer
+    · rw [if_pos h1] at hok; cases hok
+    · simpa using h1
+  have hcanon : canon e g b.id = replayBlock e (canon e g s.pointer) b := by
+    rw [canon_child e g hpl b.id s.pointer (by rw [hb]; exact hpre), hb]
+  have hT : TabEq (replayTxs e b.prop b.txs (canon e g s.pointer)) (canon e g b.id) := by
+    rw [hcanon]
+    exact TabEq.of_tables (x := replayBlock e (canon e g s.pointer) b) ⟨rfl, rfl, rfl, rfl⟩
+  refine ⟨by rw [hshape], ?_, ?_, ?_⟩
+  · exact a2.trans (applyPool_tabEq e _ _ _ hT).trefines
+  · exact (poolValid_iff e _ _).mpr (poolOK_tabEq e _ _ _ hT a3)
+  · rw [hshape]
+
+-- non-vacuity of `play_refines`: genesis rows (0,0) (0,1) (0,2); the node is at block 1 with FIVE pending transactions:
+-- 21 (spends (0,0), creates key "k", pays a fee), 22 (spends an output of 21, overwrites "k"), 23 (spends (0,1)),
+-- 24 (spends (0,2)), 26 (spends the output of 24). Block 2 = award 20, the pending 21, and the NEW transaction 25 that
+-- spends (0,2) too: `play` accepts it, evicts 24 (conflict) and 26 (dependent), skips 21, applies 20 and 25, keeps 22, 23.
+private def prEnv : Env := {
+  txs := [
+    (20, ⟨20, true, [], [⟨"m2", 10, 0⟩], [], []⟩),
+    (21, ⟨21, false, [⟨0, 0, "u0", 5, 0, false⟩], [⟨"u1", 4, 0⟩, ⟨"$", 1, 0⟩], [⟨"k", none⟩], [⟨"k", "a", false⟩]⟩),
+    (22, ⟨22, false, [⟨21, 0, "u1", 4, 0, false⟩], [⟨"u2", 4, 0⟩], [⟨"k", some (21, 0)⟩], [⟨"k", "b", false⟩]⟩),
+    (23, ⟨23, false, [⟨0, 1, "u0", 4, 0, false⟩], [⟨"u3", 4, 0⟩], [], []⟩),
+    (24, ⟨24, false, [⟨0, 2, "u0", 3, 0, false⟩], [⟨"u4", 3, 0⟩], [], []⟩),
+    (25, ⟨25, false, [⟨0, 2, "u0", 3, 0, false⟩], [⟨"u5", 2, 0⟩, ⟨"$", 1, 0⟩], [⟨"j", none⟩], [⟨"j", "c", false⟩]⟩),
+    (26, ⟨26, false, [⟨24, 0, "u4", 3, 0, false⟩], [⟨"u6", 3, 0⟩], [], []⟩)],
+  blocks := [(1, ⟨1, none, 1, [], "m1"⟩), (2, ⟨2, some 1, 2, [20, 21, 25], "m2"⟩)] }
+private def prG : St := { U := [((0, 0), ⟨"u0", 5, 0⟩), ((0, 1), ⟨"u0", 4, 0⟩), ((0, 2), ⟨"u0", 3, 0⟩)], total := 12 }
+private def prPool : List Nat := [21, 22, 23, 24, 26]
+private def prS : St := { applyPool prEnv prPool (canon prEnv prG 1) with pool := prPool }
+
+example : ParentLower prEnv := parentLower_of_blocks _ (by decide)
+example : prEnv.block (prEnv.block 2).id = prEnv.block 2 ∧ prS.pointer = 1 ∧ prS.pool = prPool ∧ prS.pool.Nodup ∧
+    (play prEnv prS 0 (prEnv.block 2)).2 = .ok ∧ playEvict prEnv prS (prEnv.block 2) = [24, 26] := by decide
+example : KVInv prEnv prG := KVInv_empty prEnv prG rfl rfl
+example : ChainValid prEnv (ancestors prEnv (prEnv.blocks.length + 1) prS.pointer).reverse prG := by
+  have h1 : (ancestors prEnv (prEnv.blocks.length + 1) prS.pointer).reverse = [1] := by decide
+  rw [h1]
+  refine ⟨⟨⟨0, fwd_of_res _ _ _ _ _ (by decide)⟩, ?_, by decide, ?_, by decide⟩, trivial⟩
+  · intro i hi; simp [prEnv, Env.block, lookup] at hi
+  · intro i hi; simp [prEnv, Env.block, lookup] at hi
+example : BlockValid prEnv (canon prEnv prG prS.pointer) (prEnv.block 2) := by
+  refine ⟨⟨0, fwd_of_res _ _ _ _ _ (by decide)⟩, ?_, by decide, ?_, by decide⟩
+  · intro i hi
+    have : i = 20 ∨ i = 21 ∨ i = 25 := by simpa [prEnv, Env.block, lookup] using hi
+    rcases this with rfl | rfl | rfl <;> exact ⟨by decide, by decide, by decide⟩
+  · intro i hi
+    have : i = 20 ∨ i = 21 ∨ i = 25 := by simpa [prEnv, Env.block, lookup] using hi
+    rcases this with rfl | rfl | rfl <;> exact absent_of_rows _ _ (by decide)
+example : PoolValid prEnv prS.pool (canon prEnv prG prS.pointer) :=
+  ⟨⟨0, by decide⟩, ⟨by decide, by decide, by decide⟩, absent_of_rows _ _ (by decide), by decide,
+   ⟨0, by decide⟩, ⟨by decide, by decide, by decide⟩, absent_of_rows _ _ (by decide), by decide,
+   ⟨0, by decide⟩, ⟨by decide, by decide, by decide⟩, absent_of_rows _ _ (by decide), by decide,
+   ⟨0, by decide⟩, ⟨by decide, by decide, by decide⟩, absent_of_rows _ _ (by decide), by decide,
+   ⟨0, by decide⟩, ⟨by decide, by decide, by decide⟩, absent_of_rows _ _ (by decide), by decide, trivial⟩
+example : TRefines prS (applyPool prEnv prS.pool (canon prEnv prG prS.pointer)) :=
+  (TRefines.refl _).of_tables ⟨rfl, rfl, rfl, rfl⟩ ⟨rfl, rfl, rfl, rfl⟩
+example : ∀ i ∈ prS.pool, ∀ o, lookup (canon prEnv prG prS.pointer).U (i, o) = none :=
+  fun i hi => absent_of_rows _ i (by revert i hi; decide)
+example : ∀ i ∈ prS.pool ++ (prEnv.block 2).txs, ∀ k o, curVer (canon prEnv prG prS.pointer) k ≠ some (i, o) :=
+  fun i hi => verFresh_of_rows _ i (by revert i hi; decide) (by revert i hi; decide)
+example : FrozenInv prEnv (canon prEnv prG prS.pointer) := frozenInv_of_rows _ _ (by decide)
+example : ∀ i ∈ prS.pool, StaticFrozen prEnv i := by decide
+-- and the conclusion, computed: the new pool is [22, 23]; rows, keys and total are those of block 2 replayed on a fresh
+-- node with 22 and 23 applied on top
+example :
+    let p := (play prEnv prS 0 (prEnv.block 2)).1
+    let c := applyPool prEnv [22, 23] (canon prEnv prG 2)
+    p.pointer = 2 ∧ p.pool = [22, 23] ∧ p.total = c.total ∧ (∀ k ∈ ["k", "j"], lookup p.ZU k = lookup c.ZU k) ∧
+    (∀ k ∈ p.U.map (·.1) ++ c.U.map (·.1), lookup p.U k = lookup c.U k) ∧
+    lookup p.U (21, 1) = some ⟨"m2", 1, 0⟩ ∧ lookup p.U (24, 0) = none ∧ lookup p.U (0, 2) = none ∧
+    curVer p "k" = some (22, 0) ∧ curVer p "j" = some (25, 0) := by decide
+
+-- ================================================================== `playForMiner`: the miner's own block
+
+/-- **`playForMiner` keeps the node on "canonical state + pool".** Same setting as `play_refines` (`R` = canonical state
+of the tip; the state refines "`R`, then the pool"; `PoolValid`, `ChainValid`, `BlockValid` — the block can be replayed on
+`R` —, fresh ids, frozen heights). The miner's block: its coinbase transactions (award, generated transactions) are not
+pending and write no key; its other transactions are pending (`playForMiner` does not apply them: it only pays their
+fees); the pending transactions it leaves out all stand after its pending members in the pool — it packs a prefix of
+the pool (`hprefix`; without it a transaction left pending could read a key version that a packed one overwrites).
+Then after a successful `playForMiner`: the pointer is `b.id`, the state refines "the canonical state of `b`, then the
+remaining pool applied in order", the remaining pool is the old one without the block's transactions and satisfies
+`PoolValid` on the canonical state of `b`. -/
+theorem playForMiner_refines (e : Env) (s : St) (lh : Int) (b : Block) (g : St) (hpl : ParentLower e)
+    (hb : e.block b.id = b) (hok : (playForMiner e s lh b).2 = .ok)
+    (hblk : BlockValid e (canon e g s.pointer) b)
+    (hpool : PoolValid e s.pool (canon e g s.pointer)) (hnd : s.pool.Nodup)
+    (hs : TRefines s (applyPool e s.pool (canon e g s.pointer)))
+    (hfreshU : ∀ i ∈ s.pool, ∀ o, lookup (canon e g s.pointer).U (i, o) = none)
+    (hfreshV : ∀ i ∈ s.pool ++ b.txs, ∀ k o, curVer (canon e g s.pointer) k ≠ some (i, o))
+    (hfz : FrozenInv e (canon e g s.pointer)) (hsf : ∀ i ∈ s.pool, StaticFrozen e i)
+    (hsub : ∀ i ∈ b.txs, (e.tx i).coinbase = false → i ∈ s.pool)
+    (hcb : ∀ i ∈ b.txs, (e.tx i).coinbase = true → i ∉ s.pool ∧ (e.tx i).kout = [])
+    (hprefix : ∀ a ∈ s.pool, a ∉ b.txs → ∀ i ∈ b.txs, i ∈ s.pool → [i, a].Sublist s.pool) :
+    (playForMiner e s lh b).1.pointer = b.id ∧
+    TRefines (playForMiner e s lh b).1 (applyPool e (playForMiner e s lh b).1.pool (canon e g b.id)) ∧
+    PoolValid e (playForMiner e s lh b).1.pool (canon e g b.id) ∧
+    (playForMiner e s lh b).1.pool = s.pool.filter (fun i => !b.txs.contains i) := by
+  have hP := (poolValid_iff e _ _).mp hpool
+  obtain ⟨lhb, s2b, hfwd⟩ := hblk.fwd
+  have hB := pValid_of_applyBlockTxs e lhb b.prop b.txs _ s2b hfwd
+  have hwB : ∀ i ∈ b.txs, WF e i := fun i hi => (txWF_iff e i).mp (hblk.wf i hi)
+  have hfU : ∀ i ∈ s.pool ++ b.txs, ∀ o, lookup (canon e g s.pointer).U (i, o) = none := by
+    intro i hi o
+    rcases List.mem_append.mp hi with h | h
+    · exact hfreshU i h o
+    · exact hblk.fresh i h o
+  obtain ⟨_, a2, a3⟩ := miner_absorb_form e s lh b (canon e g s.pointer) hok hs hP hnd hB hwB hblk.nodup hfU
+    hfreshV hfz hsf hsub hcb hprefix
+  obtain ⟨hpre, s2, _, hshape⟩ := playForMiner_ok_raw e s lh b hok
+  have hcanon : canon e g b.id = replayBlock e (canon e g s.pointer) b := by
+    rw [canon_child e g hpl b.id s.pointer (by rw [hb]; exact hpre), hb]
+  have hT : TabEq (replayTxs e b.prop b.txs (canon e g s.pointer)) (canon e g b.id) := by
+    rw [hcanon]
+    exact TabEq.of_tables (x := replayBlock e (canon e g s.pointer) b) ⟨rfl, rfl, rfl, rfl⟩
+  refine ⟨by rw [hshape], ?_, ?_, ?_⟩
+  · exact a2.trans (applyPool_tabEq e _ _ _ hT).trefines
+  · exact (poolValid_iff e _ _).mpr (poolOK_tabEq e _ _ _ hT a3)
+  · rw [hshape]
+
+-- non-vacuity: the node of the `play_refines` example (pool 21 22 23 24 26 on block 1) mines block 3 = award 30 and
+-- the first two pending transactions 21, 22; 23, 24, 26 stay pending
+private def pmEnv : Env := { prEnv with
+  txs := prEnv.txs ++ [(30, ⟨30, true, [], [⟨"m3", 10, 0⟩], [], []⟩)],
+  blocks := prEnv.blocks ++ [(3, ⟨3, some 1, 2, [30, 21, 22], "m3"⟩)] }
+private def pmS : St := { applyPool pmEnv prPool (canon pmEnv prG 1) with pool := prPool }
+
+example : ParentLower pmEnv := parentLower_of_blocks _ (by decide)
+example : pmEnv.block (pmEnv.block 3).id = pmEnv.block 3 ∧ pmS.pointer = 1 ∧ pmS.pool = prPool ∧ pmS.pool.Nodup ∧
+    (playForMiner pmEnv pmS 0 (pmEnv.block 3)).2 = .ok := by decide
+example : BlockValid pmEnv (canon pmEnv prG pmS.pointer) (pmEnv.block 3) := by
+  refine ⟨⟨0, fwd_of_res _ _ _ _ _ (by decide)⟩, ?_, by decide, ?_, by decide⟩
+  · intro i hi
+    have : i = 30 ∨ i = 21 ∨ i = 22 := by simpa [pmEnv, prEnv, Env.block, lookup] using hi
+    rcases this with rfl | rfl | rfl <;> exact ⟨by decide, by decide, by decide⟩
+  · intro i hi
+    have : i = 30 ∨ i = 21 ∨ i = 22 := by simpa [pmEnv, prEnv, Env.block, lookup] using hi
+    rcases this with rfl | rfl | rfl <;> exact absent_of_rows _ _ (by decide)
+example : PoolValid pmEnv pmS.pool (canon pmEnv prG pmS.pointer) :=
+  ⟨⟨0, by decide⟩, ⟨by decide, by decide, by decide⟩, absent_of_rows _ _ (by decide), by decide,
+   ⟨0, by decide⟩, ⟨by decide, by decide, by decide⟩, absent_of_rows _ _ (by decide), by decide,
+   ⟨0, by decide⟩, ⟨by decide, by decide, by decide⟩, absent_of_rows _ _ (by decide), by decide,
+   ⟨0, by decide⟩, ⟨by decide, by decide, by decide⟩, absent_of_rows _ _ (by decide), by decide,
+   ⟨0, by decide⟩, ⟨by decide, by decide, by decide⟩, absent_of_rows _ _ (by decide), by decide, trivial⟩
+example : TRefines pmS (applyPool pmEnv pmS.pool (canon pmEnv prG pmS.pointer)) :=
+  (TRefines.refl _).of_tables ⟨rfl, rfl, rfl, rfl⟩ ⟨rfl, rfl, rfl, rfl⟩
+example : ∀ i ∈ pmS.pool, ∀ o, lookup (canon pmEnv prG pmS.pointer).U (i, o) = none :=
+  fun i hi => absent_of_rows _ i (by revert i hi; decide)
+example : ∀ i ∈ pmS.pool ++ (pmEnv.block 3).txs, ∀ k o, curVer (canon pmEnv prG pmS.pointer) k ≠ some (i, o) :=
+  fun i hi => verFresh_of_rows _ i (by revert i hi; decide) (by revert i hi; decide)
+example : FrozenInv pmEnv (canon pmEnv prG pmS.pointer) := frozenInv_of_rows _ _ (by decide)
+example : (∀ i ∈ pmS.pool, StaticFrozen pmEnv i) ∧
+    (∀ i ∈ (pmEnv.block 3).txs, (pmEnv.tx i).coinbase = false → i ∈ pmS.pool) ∧
+    (∀ i ∈ (pmEnv.block 3).txs, (pmEnv.tx i).coinbase = true → i ∉ pmS.pool ∧ (pmEnv.tx i).kout = []) ∧
+    (∀ a ∈ pmS.pool, a ∉ (pmEnv.block 3).txs → ∀ i ∈ (pmEnv.block 3).txs, i ∈ pmS.pool →
+      [i, a].Sublist pmS.pool) := by decide
+example :
+    let p := (playForMiner pmEnv pmS 0 (pmEnv.block 3)).1
+    let c := applyPool pmEnv [23, 24, 26] (canon pmEnv prG 3)
+    p.pointer = 3 ∧ p.pool = [23, 24, 26] ∧ p.total = c.total ∧ (∀ k ∈ ["k", "j"], lookup p.ZU k = lookup c.ZU k) ∧
+    (∀ k ∈ p.U.map (·.1) ++ c.U.map (·.1), lookup p.U k = lookup c.U k) ∧
+    lookup p.U (21, 1) = some ⟨"m3", 1, 0⟩ ∧ curVer p "k" = some (22, 0) := by decide
+
+-- ================================================================== admission on top of the pool
+
+/-- no row and no key version of the base state carries transaction id `i` (checkable form: over the rows) -/
+def IdFresh (g : St) (i : Nat) : Prop :=
+  (∀ p ∈ g.U, p.1.1 ≠ i) ∧ (∀ p ∈ g.ZU, p.2.1 ≠ i) ∧ (∀ p ∈ g.ZD, p.2.1 ≠ i)
+
+instance (g : St) (i : Nat) : Decidable (IdFresh g i) := by unfold IdFresh; exact inferInstance
+
+private theorem applyPool_as_prun (e : Env) (l : List Nat) (C : St) : applyPool e l C = prun e (l.map POp.app) C :=
+  (prun_apps e l C).symm
+
+/-- **one admission (`doTx`) on top of the pool keeps "the state refines `C` + pool" and the side conditions of the pool.**
+`C` any state (in the closing induction: the canonical state of the tip) with `FrozenInv`; the state refines "`C`, then the
+pool"; `PoolValid`, no repetition. If the transaction is accepted it must be well-formed, cite the declared frozen
+heights and have no row in `C` (it is not confirmed on the chain of `C`) — nothing is asked of a refused transaction:
+`doTx` then leaves the state as it is (C05). -/
+theorem doTx_refines (e : Env) (s : St) (lh : Int) (i : Nat) (C : St)
+    (hs : TRefines s (applyPool e s.pool C)) (hpool : PoolValid e s.pool C) (hnd : s.pool.Nodup)
+    (hfz : FrozenInv e C)
+    (hacc : (doTx e s lh i).2 = .ok → TxWF e i ∧ StaticFrozen e i ∧ ∀ o, lookup C.U (i, o) = none) :
+    TRefines (doTx e s lh i).1 (applyPool e (doTx e s lh i).1.pool C) ∧
+    PoolValid e (doTx e s lh i).1.pool C ∧ (doTx e s lh i).1.pool.Nodup ∧
+    (doTx e s lh i).1.pointer = s.pointer ∧
+    ((doTx e s lh i).1.pool = s.pool ∨ (doTx e s lh i).1.pool = s.pool ++ [i]) := by
+  by_cases hok : (doTx e s lh i).2 = .ok
+  · obtain ⟨hnp, hadm, hs'⟩ := XV.C03.doTx_ok e s lh i hok
+    obtain ⟨hwf, hsf, hfresh⟩ := hacc hok
+    have hP := (poolValid_iff e _ _).mp hpool
+    have hpl : (doTx e s lh i).1.pool = s.pool ++ [i] := by rw [hs']
+    have hid : ∀ op ∈ s.pool.map POp.app, (e.tx (opId op)).id = opId op := by
+      intro op hop
+      obtain ⟨j, hj, rfl⟩ := List.mem_map.mp hop
+      exact (hP.wf j hj).id
+    have hfr : ∀ o, lookup (applyPool e s.pool C).U (i, o) = none := by
+      intro o
+      rw [applyPool_as_prun]
+      apply prun_row_absent e _ C i o hid _ (hfresh o)
+      intro op hop h
+      obtain ⟨j, hj, rfl⟩ := List.mem_map.mp hop
+      simp only [opId] at h
+      exact hnp (h ▸ hj)
+    have hfzP : FrozenInv e (applyPool e s.pool C) := by
+      rw [applyPool_as_prun]
+      apply prun_FrozenInv e _ C _ hfz
+      intro op hop
+      obtain ⟨j, hj, rfl⟩ := List.mem_map.mp hop
+      exact hP.wf j hj
+    refine ⟨doTx_keeps_pool_form e C s lh i hs, ?_, ?_, doTx_pointer e s lh i, Or.inr hpl⟩
+    · rw [hpl]
+      apply poolValid_snoc e s.pool i C hpool ⟨lh, ?_⟩ hwf hfr
+      · exact citesFrozen_of_inv e _ i hfzP hsf
+      · rw [← admission_congrT s _ lh (e.tx i) hs.obs]; exact hadm
+    · rw [hpl]
+      apply List.nodup_append.mpr
+      refine ⟨hnd, by simp, ?_⟩
+      intro a ha b hb
+      simp only [List.mem_cons, List.not_mem_nil, or_false] at hb
+      rw [hb]; exact fun h => hnp (h ▸ ha)
+  · rw [XV.C05.doTx_fail_noop e s lh i hok]
+    exact ⟨hs, hpool, hnd, rfl, Or.inl rfl⟩
+
+-- non-vacuity: the node of the `play_refines` example admits a sixth transaction (27 spends the output of 23)
+private def dtEnv : Env := { prEnv with
+  txs := prEnv.txs ++ [(27, ⟨27, false, [⟨23, 0, "u3", 4, 0, false⟩], [⟨"u7", 3, 0⟩, ⟨"$", 1, 0⟩], [⟨"k", some (22, 0)⟩], []⟩)] }
+private def dtS : St := { applyPool dtEnv prPool (canon dtEnv prG 1) with pool := prPool }
+
+example : (doTx dtEnv dtS 0 27).2 = .ok ∧ (doTx dtEnv dtS 0 27).1.pool = prPool ++ [27] ∧ dtS.pool.Nodup ∧
+    StaticFrozen dtEnv 27 ∧ (doTx dtEnv dtS 0 21).2 = .inpool := by decide
+example : TxWF dtEnv 27 := ⟨by decide, by decide, by decide⟩
+example : ∀ o, lookup (canon dtEnv prG 1).U (27, o) = none := absent_of_rows _ _ (by decide)
+example : FrozenInv dtEnv (canon dtEnv prG 1) := frozenInv_of_rows _ _ (by decide)
+example : TRefines dtS (applyPool dtEnv dtS.pool (canon dtEnv prG 1)) :=
+  (TRefines.refl _).of_tables ⟨rfl, rfl, rfl, rfl⟩ ⟨rfl, rfl, rfl, rfl⟩
+example : PoolValid dtEnv dtS.pool (canon dtEnv prG 1) :=
+  ⟨⟨0, by decide⟩, ⟨by decide, by decide, by decide⟩, absent_of_rows _ _ (by decide), by decide,
+   ⟨0, by decide⟩, ⟨by decide, by decide, by decide⟩, absent_of_rows _ _ (by decide), by decide,
+   ⟨0, by decide⟩, ⟨by decide, by decide, by decide⟩, absent_of_rows _ _ (by decide), by decide,
+   ⟨0, by decide⟩, ⟨by decide, by decide, by decide⟩, absent_of_rows _ _ (by decide), by decide,
+   ⟨0, by decide⟩, ⟨by decide, by decide, by decide⟩, absent_of_rows _ _ (by decide), by decide, trivial⟩
+
+-- ================================================================== the canonical state as a list of operations
+
+/-- the transactions confirmed on the chain of block `p`, root first -/
+def chainTxs (e : Env) (p : Nat) : List Nat :=
+  (ancestors e (e.blocks.length + 1) p).reverse.flatMap (fun bi => (e.block bi).txs)
+
+private def chainOps (e : Env) (l : List Nat) : List POp :=
+  l.flatMap (fun bi => blockOps (e.block bi).prop (e.block bi).txs)
+
+private theorem prun_tabEq (e : Env) (l : List POp) (s s' : St) (h : TabEq s s') :
+    TabEq (prun e l s) (prun e l s') := by
+  induction l generalizing s s' with
+  | nil => exact h
+  | cons a rest ih => exact ih _ _ (pstep_tabEq e s s' a h)
+
+private theorem replayChain_tabEq (e : Env) (l : List Nat) (s s' : St) (h : TabEq s s') :
+    TabEq (replayChain e l s) (prun e (chainOps e l) s') := by
+  induction l generalizing s s' with
+  | nil => exact h
+  | cons bi rest ih =>
+    rw [replayChain_cons]
+    unfold chainOps
+    rw [List.flatMap_cons, prun_append]
+    apply ih
+    have h1 : TabEq (replayBlock e s (e.block bi)) (replayTxs e (e.block bi).prop (e.block bi).txs s) :=
+      TabEq.of_tables (x := replayTxs e (e.block bi).prop (e.block bi).txs s) ⟨rfl, rfl, rfl, rfl⟩
+    rw [← prun_blockOps] at h1
+    exact h1.trans (prun_tabEq e _ s s' h)
+
+private theorem opId_chainOps (e : Env) (l : List Nat) :
+    ∀ op ∈ chainOps e l, opId op ∈ l.flatMap (fun bi => (e.block bi).txs) := by
+  intro op hop
+  unfold chainOps at hop
+  obtain ⟨bi, hbi, hop⟩ := List.mem_flatMap.mp hop
+  exact List.mem_flatMap.mpr ⟨bi, hbi, opId_blockOps _ _ op hop⟩
+
+private theorem chainValid_wf (e : Env) (l : List Nat) (r : St) (h : ChainValid e l r) :
+    ∀ i ∈ l.flatMap (fun bi => (e.block bi).txs), TxWF e i := by
+  induction l generalizing r with
+  | nil => intro i hi; simp at hi
+  | cons bi rest ih =>
+    intro i hi
+    rw [List.flatMap_cons] at hi
+    rcases List.mem_append.mp hi with h1 | h1
+    · exact h.1.wf i h1
+    · exact ih _ h.2 i h1
+
+private theorem canon_tabEq (e : Env) (g : St) (p : Nat) :
+    TabEq (canon e g p) (prun e (chainOps e (ancestors e (e.blocks.length + 1) p).reverse) g) :=
+  replayChain_tabEq e _ g g (TabEq.refl g)
+
+/-- a fresh identifier that is not confirmed on the chain of `p` names no row and no key version of the canonical state -/
+private theorem canon_fresh (e : Env) (g : St) (p i : Nat)
+    (hch : ChainValid e (ancestors e (e.blocks.length + 1) p).reverse g) (hf : IdFresh g i) (hni : i ∉ chainTxs e p) :
+    (∀ o, lookup (canon e g p).U (i, o) = none) ∧ (∀ k o, curVer (canon e g p) k ≠ some (i, o)) := by
+  have hT := canon_tabEq e g p
+  have hid : ∀ op ∈ chainOps e (ancestors e (e.blocks.length + 1) p).reverse, (e.tx (opId op)).id = opId op :=
+    fun op hop => (chainValid_wf e _ g hch _ (opId_chainOps e _ op hop)).id
+  constructor
+  · intro o
+    rw [hT.U]
+    apply prun_row_absent e _ g i o hid
+    · intro op hop h
+      exact hni (h ▸ opId_chainOps e _ op hop)
+    · exact absent_of_rows _ _ hf.1 o
+  · intro k o hc
+    rw [hT.curVer] at hc
+    rcases prun_curVer e _ g k hid with h | ⟨w, o', hw, h⟩
+    · rw [h] at hc
+      exact verFresh_of_rows g i hf.2.1 hf.2.2 k o hc
+    · rw [h] at hc
+      injection hc with hc
+      injection hc with hw1 _
+      apply hni
+      rw [← hw1]
+      exact opId_chainOps e _ _ hw
+
+private theorem canon_frozenInv (e : Env) (g : St) (p : Nat)
+    (hch : ChainValid e (ancestors e (e.blocks.length + 1) p).reverse g) (hf : FrozenInv e g) :
+    FrozenInv e (canon e g p) := by
+  apply FrozenInv_of_U e _ _ (canon_tabEq e g p).U
+  apply prun_FrozenInv e _ g _ hf
+  intro op hop
+  exact (txWF_iff e _).mp (chainValid_wf e _ g hch _ (opId_chainOps e _ op hop))
+
+/-- the ancestor list of a child is the child followed by the ancestor list of its parent -/
+private theorem ancestors_child (e : Env) (hpl : ParentLower e) (bi p : Nat) (hpre : (e.block bi).pre = some p) :
+    ancestors e (e.blocks.length + 1) bi = bi :: ancestors e (e.blocks.length + 1) p := by
+  have hk := block_known_of_pre e bi (by rw [hpre]; simp)
+  obtain ⟨m, hm⟩ : ∃ m, e.blocks.length = m + 1 := by
+    cases hb : e.blocks with
+    | nil => rw [hb] at hk; simp at hk
+    | cons x r => exact ⟨r.length, by simp⟩
+  obtain ⟨r, hr⟩ := ancestors_head e m p
+  have h1 : ancestors e (e.blocks.length + 1) bi = [bi] ++ p :: r := by
+    rw [ancestors_succ_some e _ bi p hpre, hm, hr]; rfl
+  have h2 := ancestors_tail_eq e hpl bi p [bi] r h1
+  rw [h1, h2]; rfl
+
+private theorem chainTxs_child (e : Env) (hpl : ParentLower e) (bi p : Nat) (hpre : (e.block bi).pre = some p) :
+    chainTxs e bi = chainTxs e p ++ (e.block bi).txs := by
+  unfold chainTxs
+  rw [ancestors_child e hpl bi p hpre, List.reverse_cons, List.flatMap_append]
+  simp
+
+private theorem blockValid_of_chain (e : Env) (g : St) (hpl : ParentLower e) (bi p : Nat)
+    (hpre : (e.block bi).pre = some p)
+    (hch : ChainValid e (ancestors e (e.blocks.length + 1) bi).reverse g) :
+    BlockValid e (canon e g p) (e.block bi) := by
+  rw [ancestors_child e hpl bi p hpre, List.reverse_cons] at hch
+  exact (chainValid_snoc e _ bi g hch).2
+
+-- ------------------------------------------------------------------ a confirmed transaction cannot be admitted again
+
+private theorem chainValid_pValid (e : Env) (l : List Nat) (r : St) (h : ChainValid e l r) :
+    pValid e (chainOps e l) r := by
+  induction l generalizing r with
+  | nil => trivial
+  | cons bi rest ih =>
+    obtain ⟨hb, hr⟩ := h
+    unfold chainOps
+    rw [List.flatMap_cons]
+    apply (pValid_append e _ _ r).mpr
+    obtain ⟨lhb, s2b, hfwd⟩ := hb.fwd
+    refine ⟨pValid_of_applyBlockTxs e lhb _ _ r s2b hfwd, ?_⟩
+    have hT : TabEq (replayBlock e r (e.block bi)) (prun e (blockOps (e.block bi).prop (e.block bi).txs) r) := by
+      rw [prun_blockOps]
+      exact TabEq.of_tables (x := replayTxs e (e.block bi).prop (e.block bi).txs r) ⟨rfl, rfl, rfl, rfl⟩
+    exact ((chainSys e).congr _ _ _ hT (ih _ hr)).1
+
+private theorem blockOps_ids (prop : String) (l : List Nat) :
+    (blockOps prop l).map opId = l.flatMap (fun j => [j, j]) := by
+  induction l with
+  | nil => rfl
+  | cons i rest ih => rw [blockOps_cons]; simp [opId, ih]
+
+private theorem chainOps_ids (e : Env) (l : List Nat) :
+    (chainOps e l).map opId = (l.flatMap (fun bi => (e.block bi).txs)).flatMap (fun j => [j, j]) := by
+  induction l with
+  | nil => rfl
+  | cons bi rest ih =>
+    unfold chainOps at ih ⊢
+    rw [List.flatMap_cons, List.map_append, ih, blockOps_ids, List.flatMap_cons, List.flatMap_append]
+
+/-- in the doubled list of a list without repetitions, an element that stands on both sides of an occurrence of `i` is `i` -/
+private theorem dup_split (L : List Nat) (hnd : L.Nodup) : ∀ (X Y : List Nat) (i a : Nat),
+    L.flatMap (fun j => [j, j]) = X ++ i :: Y → a ∈ X → a ∈ Y → a = i := by
+  induction L with
+  | nil => intro X Y i a h; simp at h
+  | cons j L' ih =>
+    intro X Y i a h haX haY
+    simp only [List.nodup_cons] at hnd
+    rw [List.flatMap_cons] at h
+    simp only [List.cons_append, List.nil_append] at h
+    have hsub : ∀ z, z ∈ L'.flatMap (fun j => [j, j]) → z ∈ L' := by
+      intro z hz
+      obtain ⟨w, hw, hzw⟩ := List.mem_flatMap.mp hz
+      simp only [List.mem_cons, List.not_mem_nil, or_false, or_self] at hzw
+      rw [hzw]; exact hw
+    match X, h, haX with
+    | [x1], h, haX =>
+      simp only [List.cons_append, List.nil_append, List.cons.injEq] at h
+      simp only [List.mem_cons, List.not_mem_nil, or_false] at haX
+      rw [haX, ← h.1, h.2.1]
+    | x1 :: x2 :: X', h, haX =>
+      simp only [List.cons_append, List.cons.injEq] at h
+      obtain ⟨h1, h2, h3⟩ := h
+      rcases List.mem_cons.mp haX with hx | hx
+      · exfalso
+        have : a ∈ L'.flatMap (fun j => [j, j]) := by rw [h3]; simp [haY]
+        rw [hx, ← h1] at this
+        exact hnd.1 (hsub _ this)
+      · rcases List.mem_cons.mp hx with hx | hx
+        · exfalso
+          have : a ∈ L'.flatMap (fun j => [j, j]) := by rw [h3]; simp [haY]
+          rw [hx, ← h2] at this
+          exact hnd.1 (hsub _ this)
+        · exact ih hnd.2 X' Y i a h3 hx haY
+
+-- ================================================================== the closing induction over histories
+
+/-- the hypotheses on the environment (static: they do not mention the node). Block tree with parent links strictly
+down in height; every registered block is known under its id, its parent is registered, and all blocks descend from one
+root; every chain of the tree can be replayed on a fresh
+node from the base state `g`, with the side conditions of the block theorem (`ChainValid`: the harness feeds blocks that
+replicas accept; that `play` alone does not guarantee this is `accepted_block_replayable_refuted` below); no transaction
+occurs twice on a chain; the ids of block transactions are fresh in `g`; `g` is well-formed and its rows carry the frozen
+heights their transactions declare. -/
+structure EnvOK (e : Env) (g : St) : Prop where
+  lower : ParentLower e
+  blockId : ∀ bi, bi ∈ e.blocks.map (·.1) → (e.block bi).id = bi
+  parentKnown : ∀ bi ∈ e.blocks.map (·.1),
+    (e.block bi).pre = none ∨ ∃ q ∈ e.blocks.map (·.1), (e.block bi).pre = some q
+  oneRoot : ∀ b1 ∈ e.blocks.map (·.1), ∀ b2 ∈ e.blocks.map (·.1),
+    (ancestors e (e.blocks.length + 1) b1).getLast? = (ancestors e (e.blocks.length + 1) b2).getLast?
+  chains : ∀ bi, bi ∈ e.blocks.map (·.1) → ChainValid e (ancestors e (e.blocks.length + 1) bi).reverse g
+  chainNodup : ∀ bi, bi ∈ e.blocks.map (·.1) → (chainTxs e bi).Nodup
+  blockFresh : ∀ bi, bi ∈ e.blocks.map (·.1) → ∀ i ∈ (e.block bi).txs, IdFresh g i
+  kv : KVInv e g
+  frozen : FrozenInv e g
+
+/-- **the invariant of the closing induction**: the node points at a registered block; its tables refine the canonical
+state of that block (the replay of its chain on a fresh node) with the pending pool applied in admission order; the
+pool satisfies the side conditions of the transaction theorems there, has no repetition, contains no transaction that
+is confirmed on the chain, and its transactions cite declared frozen heights and have ids fresh in `g` -/
+structure Inv (e : Env) (g : St) (s : St) : Prop where
+  known : s.pointer ∈ e.blocks.map (·.1)
+  refines : TRefines s (applyPool e s.pool (canon e g s.pointer))
+  pool : PoolValid e s.pool (canon e g s.pointer)
+  nodup : s.pool.Nodup
+  disjoint : ∀ i ∈ s.pool, i ∉ chainTxs e s.pointer
+  static : ∀ i ∈ s.pool, StaticFrozen e i ∧ IdFresh g i
+
+/-- the operations of a history: a transaction is submitted, a block of a peer is played, the node's own block is
+played, the node walks to a block; `lh` is the ledger height the operation runs at (frozen outputs) -/
+inductive HOp where
+  | submit (lh : Int) (i : Nat)
+  | play (lh : Int) (bi : Nat)
+  | playMiner (lh : Int) (bi : Nat)
+  | walk (lh : Int) (dest : Nat) (prune : Bool := false)
+deriving Repr, DecidableEq
+
+/-- one operation of the model; a refused submission / block leaves the state as it is (C05) -/
+def hstep (e : Env) (s : St) : HOp → St
+  | .submit lh i => (doTx e s lh i).1
+  | .play lh bi => (play e s lh (e.block bi)).1
+  | .playMiner lh bi => (playForMiner e s lh (e.block bi)).1
+  | .walk lh dest prune => (walk e s lh dest prune).1
+
+def hrun (e : Env) (s : St) (ops : List HOp) : St := ops.foldl (hstep e) s
+
+/-- what is asked of one operation of a history, in the state it is applied to (everything else follows from `EnvOK`
+and the invariant). A submitted transaction that is ACCEPTED is well-formed, cites declared frozen heights and has a fresh
+id; if it has no token input it must not be confirmed on the node's chain already (a transaction with a token input that
+is confirmed cannot be accepted: its input is spent — `spent_on_chain`). Nothing is asked of a peer's block. The node's
+own block, if accepted: coinbase transactions new and without key writes, the others pending, a prefix of the pool. A
+walk goes to a registered block, and a pending transaction WITHOUT token input that is confirmed on the destination's
+chain is not among the re-admitted ones (again: with a token input it cannot be); a walk that
+FAILS (an undo refused at the irreversible height, a block refused at this ledger height) is covered too: it leaves the
+node at the block it reached, with an empty pool (`inv_walk_fail`). -/
+def OpOK (e : Env) (g : St) (s : St) : HOp → Prop
+  | .submit lh i => (doTx e s lh i).2 = .ok →
+      TxWF e i ∧ StaticFrozen e i ∧ IdFresh g i ∧ ((e.tx i).ins ≠ [] ∨ i ∉ chainTxs e s.pointer)
+  | .play _ _ => True
+  | .playMiner lh bi => (playForMiner e s lh (e.block bi)).2 = .ok →
+      (∀ i ∈ (e.block bi).txs, (e.tx i).coinbase = false → i ∈ s.pool) ∧
+      (∀ i ∈ (e.block bi).txs, (e.tx i).coinbase = true → i ∉ s.pool ∧ (e.tx i).kout = []) ∧
+      (∀ a ∈ s.pool, a ∉ (e.block bi).txs → ∀ i ∈ (e.block bi).txs, i ∈ s.pool → [i, a].Sublist s.pool)
+  | .walk lh dest prune => dest ∈ e.blocks.map (·.1) ∧
+      ∀ i ∈ s.pool, (e.tx i).ins ≠ [] ∨ i ∉ chainTxs e dest ∨ i ∉ (walk e s lh dest prune).1.pool
+
+/-- `OpOK` for every operation of the history, each in the state it is applied to -/
+def HistOK (e : Env) (g : St) : St → List HOp → Prop
+  | _, [] => True
+  | s, op :: rest => OpOK e g s op ∧ HistOK e g (hstep e s op) rest
+
+/-- **an input of a transaction that is confirmed on the chain of `p` is a spent row, in the canonical state of `p` and
+with any pending transactions (fresh ids, not on the chain) applied on top** -/
+private theorem spent_on_chain (e : Env) (g : St) (p : Nat) (he : EnvOK e g) (hp : p ∈ e.blocks.map (·.1))
+    (P : List Nat) (hP : ∀ j ∈ P, j ∉ chainTxs e p ∧ IdFresh g j ∧ (e.tx j).id = j)
+    (i : Nat) (hi : i ∈ chainTxs e p) (r : InRef) (hr : r ∈ (e.tx i).ins) :
+    lookup (applyPool e P (canon e g p)).U (r.tx, r.off) = none := by
+  have hch := he.chains p hp
+  have hnd := he.chainNodup p hp
+  have hwfc := chainValid_wf e _ g hch
+  have hT := applyPool_tabEq e P _ _ (canon_tabEq e g p)
+  rw [hT.U, applyPool_as_prun, ← prun_append]
+  -- split the operations of the chain at `app i`
+  have happ : POp.app i ∈ chainOps e (ancestors e (e.blocks.length + 1) p).reverse := by
+    unfold chainTxs at hi
+    obtain ⟨bi, hbi, hib⟩ := List.mem_flatMap.mp hi
+    unfold chainOps
+    apply List.mem_flatMap.mpr
+    refine ⟨bi, hbi, ?_⟩
+    unfold blockOps
+    exact List.mem_flatMap.mpr ⟨i, hib, by simp⟩
+  obtain ⟨A, B', hsplit⟩ := List.append_of_mem happ
+  have hwi := hwfc i hi
+  have hri : r.tx ≠ i := hwi.self r hr
+  rw [hsplit, List.append_assoc, prun_append]
+  simp only [List.cons_append]
+  rw [prun_cons]
+  have hidc : ∀ op ∈ chainOps e (ancestors e (e.blocks.length + 1) p).reverse, (e.tx (opId op)).id = opId op :=
+    fun op hop => (hwfc _ (opId_chainOps e _ op hop)).id
+  apply prun_row_absent e _ _ r.tx r.off
+  · intro op hop
+    rcases List.mem_append.mp hop with h | h
+    · exact hidc op (by rw [hsplit]; simp [h])
+    · obtain ⟨j, hj, rfl⟩ := List.mem_map.mp h
+      exact (hP j hj).2.2
+  · -- no later operation carries the id r.tx
+    intro op hop hid
+    -- the row was there when `i` was admitted
+    have hv := chainValid_pValid e _ g hch
+    rw [hsplit] at hv
+    obtain ⟨_, hv2⟩ := (pValid_append e _ _ g).mp hv
+    obtain ⟨⟨lh, hadm⟩, _⟩ := (pValid_cons e _ _ _).mp hv2
+    obtain ⟨hcur, _⟩ := XV.C03.admit_sound _ lh _ hadm
+    obtain ⟨u, hu, _⟩ := hcur r hr
+    rcases List.mem_append.mp hop with h | h
+    · -- a later operation of the chain: then r.tx is a chain transaction, created before `i`, so twice on the chain
+      have hrc : r.tx ∈ chainTxs e p := by
+        rw [← hid]
+        exact opId_chainOps e _ op (by rw [hsplit]; simp [h])
+      have hinA : r.tx ∈ A.map opId := by
+        cases hAm : decide (r.tx ∈ A.map opId) with
+        | true => simpa using hAm
+        | false =>
+          exfalso
+          have hnA : r.tx ∉ A.map opId := by simpa using hAm
+          have := prun_row_other e A g r.tx r.off u
+            (fun op' hop' => hidc op' (by rw [hsplit]; simp [hop']))
+            (fun op' hop' h' => hnA (List.mem_map.mpr ⟨op', hop', h'⟩)) hu
+          obtain ⟨bi, hbi, hib⟩ := List.mem_flatMap.mp hrc
+          have hk : bi ∈ e.blocks.map (·.1) := by
+            -- a block on the chain of a registered block: its transactions are fresh in `g` (via `blockFresh` of any
+            -- registered block that contains it) — use that the chain's blocks are ancestors
+            by_cases hbk : bi ∈ e.blocks.map (·.1)
+            · exact hbk
+            · exfalso
+              -- an unregistered block is the default block: it has no transactions
+              have : e.block bi = default := by
+                unfold Env.block
+                cases hl : lookup e.blocks bi with
+                | none => rfl
+                | some v =>
+                  exfalso
+                  apply hbk
+                  have hm := lookup_mem e.blocks bi v hl
+                  exact List.mem_map.mpr ⟨(bi, v), hm, rfl⟩
+              rw [this] at hib
+              cases hib
+          have hfr := he.blockFresh bi hk r.tx hib
+          rw [absent_of_rows _ _ hfr.1 r.off] at this
+          cases this
+      have hids := chainOps_ids e (ancestors e (e.blocks.length + 1) p).reverse
+      rw [hsplit, List.map_append, List.map_cons] at hids
+      simp only [opId] at hids
+      have := dup_split _ hnd (A.map opId) (B'.map opId) i r.tx hids.symm hinA
+        (List.mem_map.mpr ⟨op, h, hid⟩)
+      exact hri this
+    · -- a pending transaction
+      obtain ⟨j, hj, rfl⟩ := List.mem_map.mp h
+      simp only [opId] at hid
+      obtain ⟨hjc, hjf, _⟩ := hP j hj
+      by_cases hrc : r.tx ∈ chainTxs e p
+      · exact hjc (hid ▸ hrc)
+      · have := prun_row_other e A g r.tx r.off u
+          (fun op' hop' => hidc op' (by rw [hsplit]; simp [hop']))
+          (fun op' hop' h' => hrc (h' ▸ opId_chainOps e _ op' (by rw [hsplit]; simp [hop']))) hu
+        rw [← hid, absent_of_rows _ _ hjf.1 r.off] at this
+        cases this
+  · -- right after `i` the row is gone
+    simp only [pstep]
+    have hk : (r.tx, r.off).1 ≠ (e.tx i).id := by rw [hwi.id]; exact hri
+    rw [applyTx_lookup_otherid _ (e.tx i) _ hk, if_pos (List.mem_map.mpr ⟨r, hr, rfl⟩)]
+
+/-- a transaction with a token input that is accepted by `doTx` is not confirmed on the chain of the tip -/
+private theorem not_confirmed_of_ok (e : Env) (g : St) (p : Nat) (he : EnvOK e g) (hp : p ∈ e.blocks.map (·.1))
+    (st : St) (lh : Int) (i : Nat) (hst : TRefines st (applyPool e st.pool (canon e g p)))
+    (hpool : ∀ j ∈ st.pool, j ∉ chainTxs e p ∧ IdFresh g j ∧ (e.tx j).id = j)
+    (hok : (doTx e st lh i).2 = .ok) (hins : (e.tx i).ins ≠ []) : i ∉ chainTxs e p := by
+  intro hi
+  obtain ⟨_, hadm, _⟩ := XV.C03.doTx_ok e st lh i hok
+  obtain ⟨hcur, _⟩ := XV.C03.admit_sound st lh _ hadm
+  obtain ⟨r, hr⟩ := List.exists_mem_of_ne_nil _ hins
+  obtain ⟨u, hu, _⟩ := hcur r hr
+  rw [hst.obs.U, spent_on_chain e g p he hp st.pool hpool i hi r hr] at hu
+  cases hu
+
+private theorem Inv.freshU {e : Env} {g s : St} (he : EnvOK e g) (h : Inv e g s) :
+    ∀ i ∈ s.pool, ∀ o, lookup (canon e g s.pointer).U (i, o) = none :=
+  fun i hi => (canon_fresh e g s.pointer i (he.chains _ h.known) (h.static i hi).2 (h.disjoint i hi)).1
+
+private theorem Inv.poolFacts {e : Env} {g s : St} (h : Inv e g s) :
+    ∀ j ∈ s.pool, j ∉ chainTxs e s.pointer ∧ IdFresh g j ∧ (e.tx j).id = j :=
+  fun j hj => ⟨h.disjoint j hj, (h.static j hj).2, (((poolValid_iff e _ _).mp h.pool).wf j hj).id⟩
+
+private theorem inv_submit (e : Env) (g s : St) (lh : Int) (i : Nat) (he : EnvOK e g) (h : Inv e g s)
+    (hop : OpOK e g s (.submit lh i)) : Inv e g (doTx e s lh i).1 := by
+  have hch := he.chains _ h.known
+  have hni : (doTx e s lh i).2 = .ok → i ∉ chainTxs e s.pointer := by
+    intro hok
+    rcases (hop hok).2.2.2 with hins | hn
+    · exact not_confirmed_of_ok e g s.pointer he h.known s lh i h.refines h.poolFacts hok hins
+    · exact hn
+  obtain ⟨a1, a2, a3, a4, a5⟩ := doTx_refines e s lh i (canon e g s.pointer) h.refines h.pool h.nodup
+    (canon_frozenInv e g _ hch he.frozen)
+    (fun hok => by
+      obtain ⟨w, sf, fr, _⟩ := hop hok
+      exact ⟨w, sf, (canon_fresh e g s.pointer i hch fr (hni hok)).1⟩)
+  have hmem : ∀ j ∈ (doTx e s lh i).1.pool, j ∈ s.pool ∨ (j = i ∧ (doTx e s lh i).2 = .ok) := by
+    intro j hj
+    by_cases hok : (doTx e s lh i).2 = .ok
+    · rcases a5 with h5 | h5
+      · rw [h5] at hj; exact Or.inl hj
+      · rw [h5] at hj
+        rcases List.mem_append.mp hj with h6 | h6
+        · exact Or.inl h6
+        · simp only [List.mem_cons, List.not_mem_nil, or_false] at h6; exact Or.inr ⟨h6, hok⟩
+    · rw [XV.C05.doTx_fail_noop e s lh i hok] at hj; exact Or.inl hj
+  refine ⟨by rw [a4]; exact h.known, by rw [a4]; exact a1, by rw [a4]; exact a2, a3, ?_, ?_⟩
+  · intro j hj
+    rw [a4]
+    rcases hmem j hj with h1 | ⟨rfl, hok⟩
+    · exact h.disjoint j h1
+    · exact hni hok
+  · intro j hj
+    rcases hmem j hj with h1 | ⟨rfl, hok⟩
+    · exact h.static j h1
+    · exact ⟨(hop hok).2.1, (hop hok).2.2.1⟩
+
+/-- what the invariant and `EnvOK` give for a block `bi` whose parent is the tip -/
+private theorem inv_block_facts (e : Env) (g s : St) (bi : Nat) (he : EnvOK e g) (h : Inv e g s)
+    (hpre : (e.block bi).pre = some s.pointer) :
+    bi ∈ e.blocks.map (·.1) ∧ e.block (e.block bi).id = e.block bi ∧
+    BlockValid e (canon e g s.pointer) (e.block bi) ∧
+    chainTxs e bi = chainTxs e s.pointer ++ (e.block bi).txs ∧
+    (∀ i ∈ s.pool ++ (e.block bi).txs, ∀ k o, curVer (canon e g s.pointer) k ≠ some (i, o)) := by
+  have hk := block_known_of_pre e bi (by rw [hpre]; simp)
+  have hct := chainTxs_child e he.lower bi s.pointer hpre
+  have hnd := he.chainNodup bi hk
+  rw [hct] at hnd
+  refine ⟨hk, by rw [he.blockId bi hk], blockValid_of_chain e g he.lower bi s.pointer hpre (he.chains bi hk), hct, ?_⟩
+  intro i hi
+  have hch := he.chains _ h.known
+  rcases List.mem_append.mp hi with h1 | h1
+  · exact (canon_fresh e g s.pointer i hch (h.static i h1).2 (h.disjoint i h1)).2
+  · exact (canon_fresh e g s.pointer i hch (he.blockFresh bi hk i h1)
+      (fun hm => (List.nodup_append.mp hnd).2.2 i hm i h1 rfl)).2
+
+private theorem play_pre (e : Env) (s : St) (lh : Int) (b : Block) (hok : (play e s lh b).2 = .ok) :
+    b.pre = some s.pointer := by
+  unfold play at hok
+  by_cases h1 : b.pre ≠ some s.pointer
+  · rw [if_pos h1] at hok; cases hok
+  · simpa using h1
+
+private theorem inv_play (e : Env) (g s : St) (lh : Int) (bi : Nat) (he : EnvOK e g) (h : Inv e g s) :
+    Inv e g (play e s lh (e.block bi)).1 := by
+  by_cases hok : (play e s lh (e.block bi)).2 = .ok
+  · have hpre := play_pre e s lh _ hok
+    obtain ⟨hk, hb, hblk, hct, hfv⟩ := inv_block_facts e g s bi he h hpre
+    have hch := he.chains _ h.known
+    obtain ⟨a1, a2, a3, a4⟩ := play_refines e s lh (e.block bi) g he.lower hb hok he.kv hch hblk h.pool h.nodup
+      h.refines (h.freshU he) hfv (canon_frozenInv e g _ hch he.frozen) (fun i hi => (h.static i hi).1)
+    have hid := he.blockId bi hk
+    have hmem : ∀ j ∈ (play e s lh (e.block bi)).1.pool, j ∈ s.pool ∧ j ∉ (e.block bi).txs := by
+      intro j hj
+      rw [a4] at hj
+      obtain ⟨h1, h2⟩ := List.mem_filter.mp hj
+      simp only [Bool.and_eq_true, Bool.not_eq_true', List.contains_eq_mem, decide_eq_false_iff_not] at h2
+      exact ⟨h1, h2.1⟩
+    refine ⟨by rw [a1, hid]; exact hk, by rw [a1]; exact a2, by rw [a1]; exact a3, ?_, ?_, ?_⟩
+    · rw [a4]; exact List.Nodup.sublist List.filter_sublist h.nodup
+    · intro j hj hm
+      rw [a1, hid, hct] at hm
+      rcases List.mem_append.mp hm with h1 | h1
+      · exact h.disjoint j (hmem j hj).1 h1
+      · exact (hmem j hj).2 h1
+    · exact fun j hj => h.static j (hmem j hj).1
+  · rw [XV.C05.play_fail_noop e s lh _ hok]; exact h
+
+private theorem inv_playMiner (e : Env) (g s : St) (lh : Int) (bi : Nat) (he : EnvOK e g) (h : Inv e g s)
+    (hop : OpOK e g s (.playMiner lh bi)) : Inv e g (playForMiner e s lh (e.block bi)).1 := by
+  by_cases hok : (playForMiner e s lh (e.block bi)).2 = .ok
+  · have hpre := (playForMiner_ok_raw e s lh _ hok).1
+    obtain ⟨hk, hb, hblk, hct, hfv⟩ := inv_block_facts e g s bi he h hpre
+    have hch := he.chains _ h.known
+    obtain ⟨o1, o2, o3⟩ := hop hok
+    obtain ⟨a1, a2, a3, a4⟩ := playForMiner_refines e s lh (e.block bi) g he.lower hb hok hblk h.pool h.nodup
+      h.refines (h.freshU he) hfv (canon_frozenInv e g _ hch he.frozen) (fun i hi => (h.static i hi).1) o1 o2 o3
+    have hid := he.blockId bi hk
+    have hmem : ∀ j ∈ (playForMiner e s lh (e.block bi)).1.pool, j ∈ s.pool ∧ j ∉ (e.block bi).txs := by
+      intro j hj
+      rw [a4] at hj
+      obtain ⟨h1, h2⟩ := List.mem_filter.mp hj
+      simp only [Bool.not_eq_true', List.contains_eq_mem, decide_eq_false_iff_not] at h2
+      exact ⟨h1, h2⟩
+    refine ⟨by rw [a1, hid]; exact hk, by rw [a1]; exact a2, by rw [a1]; exact a3, ?_, ?_, ?_⟩
+    · rw [a4]; exact List.Nodup.sublist List.filter_sublist h.nodup
+    · intro j hj hm
+      rw [a1, hid, hct] at hm
+      rcases List.mem_append.mp hm with h1 | h1
+      · exact h.disjoint j (hmem j hj).1 h1
+      · exact (hmem j hj).2 h1
+    · exact fun j hj => h.static j (hmem j hj).1
+  · rw [XV.C05.playForMiner_fail_noop e s lh _ hok]; exact h
+
+private theorem doTx_pool_cases (e : Env) (s : St) (lh : Int) (i : Nat) :
+    (doTx e s lh i).1.pool = s.pool ∨ ((doTx e s lh i).2 = .ok ∧ (doTx e s lh i).1.pool = s.pool ++ [i]) := by
+  by_cases hok : (doTx e s lh i).2 = .ok
+  · right
+    obtain ⟨_, _, hs'⟩ := XV.C03.doTx_ok e s lh i hok
+    exact ⟨hok, by rw [hs']⟩
+  · left; rw [XV.C05.doTx_fail_noop e s lh i hok]
+
+private theorem foldl_doTx_pool_sub (e : Env) (lh : Int) (l : List Nat) (st : St) :
+    ∀ j ∈ (l.foldl (fun st i => (doTx e st lh i).1) st).pool, j ∈ st.pool ∨ j ∈ l := by
+  induction l generalizing st with
+  | nil => intro j hj; exact Or.inl hj
+  | cons i rest ih =>
+    intro j hj
+    simp only [List.foldl_cons] at hj
+    rcases ih _ j hj with h | h
+    · rcases doTx_pool_cases e st lh i with h5 | ⟨_, h5⟩
+      · rw [h5] at h; exact Or.inl h
+      · rw [h5] at h
+        rcases List.mem_append.mp h with h6 | h6
+        · exact Or.inl h6
+        · simp only [List.mem_cons, List.not_mem_nil, or_false] at h6
+          exact Or.inr (by rw [h6]; exact List.mem_cons_self)
+    · exact Or.inr (List.mem_cons_of_mem _ h)
+
+private theorem foldl_doTx_pool_mono (e : Env) (lh : Int) (l : List Nat) (st : St) :
+    ∀ j ∈ st.pool, j ∈ (l.foldl (fun st i => (doTx e st lh i).1) st).pool := by
+  induction l generalizing st with
+  | nil => intro j hj; exact hj
+  | cons i rest ih =>
+    intro j hj
+    simp only [List.foldl_cons]
+    apply ih
+    rcases doTx_pool_cases e st lh i with h5 | ⟨_, h5⟩
+    · rw [h5]; exact hj
+    · rw [h5]; exact List.mem_append_left _ hj
+
+/-- the re-admission loop of `walk` (`recoverUnconfirmedTx`) keeps "the state refines canon(dest) + pool", `PoolValid` and
+"no pending transaction is confirmed on the chain of `dest`" -/
+private theorem readmit_inv2 (e : Env) (g : St) (lh : Int) (dest : Nat) (he : EnvOK e g)
+    (hdest : dest ∈ e.blocks.map (·.1)) :
+    ∀ (l : List Nat) (st : St), TRefines st (applyPool e st.pool (canon e g dest)) →
+      PoolValid e st.pool (canon e g dest) → st.pool.Nodup →
+      (∀ j ∈ st.pool, j ∉ chainTxs e dest ∧ IdFresh g j) →
+      (∀ i ∈ l, TxWF e i ∧ StaticFrozen e i ∧ IdFresh g i) →
+      (∀ i ∈ l, (e.tx i).ins ≠ [] ∨ i ∉ chainTxs e dest ∨
+        i ∉ (l.foldl (fun st i => (doTx e st lh i).1) st).pool) →
+      TRefines (l.foldl (fun st i => (doTx e st lh i).1) st)
+        (applyPool e (l.foldl (fun st i => (doTx e st lh i).1) st).pool (canon e g dest)) ∧
+      PoolValid e (l.foldl (fun st i => (doTx e st lh i).1) st).pool (canon e g dest) ∧
+      (l.foldl (fun st i => (doTx e st lh i).1) st).pool.Nodup ∧
+      (∀ j ∈ (l.foldl (fun st i => (doTx e st lh i).1) st).pool, j ∉ chainTxs e dest ∧ IdFresh g j) := by
+  have hchd := he.chains _ hdest
+  intro l
+  induction l with
+  | nil => intro st h1 h2 h3 h4 _ _; exact ⟨h1, h2, h3, h4⟩
+  | cons i rest ih =>
+    intro st h1 h2 h3 hgd hst hcand
+    simp only [List.foldl_cons] at hcand ⊢
+    have hwfP := ((poolValid_iff e _ _).mp h2).wf
+    have hgood : (doTx e st lh i).2 = .ok → i ∉ chainTxs e dest := by
+      intro hok
+      rcases hcand i List.mem_cons_self with hins | hn | hn
+      · exact not_confirmed_of_ok e g dest he hdest st lh i h1
+          (fun j hj => ⟨(hgd j hj).1, (hgd j hj).2, (hwfP j hj).id⟩) hok hins
+      · exact hn
+      · exfalso
+        obtain ⟨_, _, hs'⟩ := XV.C03.doTx_ok e st lh i hok
+        have hi1 : i ∈ (doTx e st lh i).1.pool := by rw [hs']; simp
+        exact hn (foldl_doTx_pool_mono e lh rest _ i hi1)
+    obtain ⟨a1, a2, a3, _, _⟩ := doTx_refines e st lh i (canon e g dest) h1 h2 h3
+      (canon_frozenInv e g dest hchd he.frozen) (fun hok =>
+        ⟨(hst i List.mem_cons_self).1, (hst i List.mem_cons_self).2.1,
+          (canon_fresh e g dest i hchd (hst i List.mem_cons_self).2.2 (hgood hok)).1⟩)
+    apply ih _ a1 a2 a3 _ (fun j hj => hst j (List.mem_cons_of_mem _ hj))
+      (fun j hj => hcand j (List.mem_cons_of_mem _ hj))
+    intro j hj
+    rcases doTx_pool_cases e st lh i with h5 | ⟨hok, h5⟩
+    · rw [h5] at hj; exact hgd j hj
+    · rw [h5] at hj
+      rcases List.mem_append.mp hj with h6 | h6
+      · exact hgd j h6
+      · simp only [List.mem_cons, List.not_mem_nil, or_false] at h6
+        rw [h6]
+        exact ⟨hgood hok, (hst i List.mem_cons_self).2.2⟩
+
+private theorem inv_walk (e : Env) (g s : St) (lh : Int) (dest : Nat) (prune : Bool) (he : EnvOK e g) (h : Inv e g s)
+    (hop : (walk e s lh dest prune).2 = true ∧ dest ∈ e.blocks.map (·.1) ∧
+      ∀ i ∈ s.pool, (e.tx i).ins ≠ [] ∨ i ∉ chainTxs e dest ∨ i ∉ (walk e s lh dest prune).1.pool) :
+    Inv e g (walk e s lh dest prune).1 := by
+  obtain ⟨hok, hdest, hcand⟩ := hop
+  have hchain := he.chains _ h.known
+  have hpt := walk_reaches_any e s lh dest prune he.lower (he.blockId dest hdest) hok
+  have hpool := h.pool
+  have hs := h.refines
+  obtain ⟨pre, h1, h2, h3⟩ := canon_split e g s.pointer dest he.lower
+  rw [h1] at hchain
+  obtain ⟨c1, c2⟩ := chainValid_append e pre _ g hchain
+  rw [h2] at hpool hs
+  obtain ⟨s2, t1, t2, t3⟩ := walk_refines e s lh dest prune (replayChain e pre g) hok
+    (replayChain_KVInv e pre g c1 he.kv) c2 hpool hs
+  rw [← h3] at t1
+  have hwfP := ((poolValid_iff e _ _).mp h.pool).wf
+  have hsub := foldl_doTx_pool_sub e lh s.pool s2
+  rw [t2] at hsub
+  have hmem : ∀ j ∈ (walk e s lh dest prune).1.pool, j ∈ s.pool := by
+    intro j hj
+    rw [t3] at hj
+    rcases hsub j hj with h5 | h5
+    · cases h5
+    · exact h5
+  obtain ⟨r1, r2, r3, r4⟩ := readmit_inv2 e g lh dest he hdest s.pool s2
+    (by rw [t2]; exact t1) (by rw [t2]; trivial) (by rw [t2]; exact List.nodup_nil)
+    (fun j hj => by rw [t2] at hj; cases hj)
+    (fun i hi => ⟨(txWF_iff e i).mpr (hwfP i hi), (h.static i hi).1, (h.static i hi).2⟩)
+    (fun i hi => by rw [← t3]; exact hcand i hi)
+  rw [← t3] at r1 r2 r3 r4
+  refine ⟨by rw [hpt]; exact hdest, by rw [hpt]; exact r1, by rw [hpt]; exact r2, r3, ?_, ?_⟩
+  · rw [hpt]; exact fun j hj => (r4 j hj).1
+  · exact fun j hj => h.static j (hmem j hj)
+
+-- ------------------------------------------------------------------ a walk that fails
+
+/-- the node is exactly at block `p`: empty pool, tables of the canonical state -/
+private def At (e : Env) (g x : St) (p : Nat) : Prop :=
+  x.pointer = p ∧ p ∈ e.blocks.map (·.1) ∧ TRefines x (canon e g p) ∧ x.pool = []
+
+private theorem At.inv {e : Env} {g x : St} {p : Nat} (h : At e g x p) : Inv e g x := by
+  obtain ⟨h1, h2, h3, h4⟩ := h
+  refine ⟨by rw [h1]; exact h2, by rw [h4, h1]; exact h3, by rw [h4]; trivial, by rw [h4]; exact List.nodup_nil, ?_, ?_⟩
+  · intro i hi; rw [h4] at hi; cases hi
+  · intro i hi; rw [h4] at hi; cases hi
+
+private theorem at_undoBlock (e : Env) (g x : St) (p q : Nat) (prune : Bool) (he : EnvOK e g) (h : At e g x p)
+    (hpre : (e.block p).pre = some q) : At e g (undoBlock e x (e.block p) prune) q := by
+  obtain ⟨h1, h2, h3, h4⟩ := h
+  have hq : q ∈ e.blocks.map (·.1) := by
+    rcases he.parentKnown p h2 with hn | ⟨q', hq', hs⟩
+    · rw [hn] at hpre; cases hpre
+    · rw [hs] at hpre; injection hpre with hpre; rw [← hpre]; exact hq'
+  have hblk := blockValid_of_chain e g he.lower p q hpre (he.chains p h2)
+  have hKV := replayChain_KVInv e _ g (he.chains q hq) he.kv
+  rw [canon_child e g he.lower p q hpre] at h3
+  refine ⟨by rw [undoBlock_eq]; simp [hpre], hq, undoBlock_replayBlock e _ (e.block p) prune hblk hKV x h3, ?_⟩
+  rw [undoBlock_eq]
+  exact (undoTxs_frame e _ x).2.2.trans h4
+
+private theorem at_todoBlock (e : Env) (g x x' : St) (lh : Int) (p bi : Nat) (he : EnvOK e g) (h : At e g x p)
+    (hpre : (e.block bi).pre = some p) (hx : todoBlock e x lh (e.block bi) = some x') : At e g x' bi := by
+  obtain ⟨_, _, h3, h4⟩ := h
+  have hk := block_known_of_pre e bi (by rw [hpre]; simp)
+  obtain ⟨hx', _⟩ := todoBlock_eq e x x' lh _ hx
+  rw [hx']
+  refine ⟨he.blockId bi hk, hk, ?_, ?_⟩
+  · rw [canon_child e g he.lower bi p hpre]
+    exact replayBlock_trefines e _ x _ h3
+  · exact (replayTxs_frame e _ _ x).2.2.trans h4
+
+private theorem undoAll_at (e : Env) (g : St) (prune : Bool) (he : EnvOK e g) :
+    ∀ (undo : List Nat) (x : St) (p : Nat) (tail : List Nat), At e g x p →
+      ancestors e (e.blocks.length + 1) p = undo ++ tail → tail ≠ [] →
+      ∃ p', At e g (walk.undoAll e prune undo x).1 p' ∧
+        ((walk.undoAll e prune undo x).2 = true → ancestors e (e.blocks.length + 1) p' = tail) := by
+  intro undo
+  induction undo with
+  | nil => intro x p tail h hanc _; exact ⟨p, h, fun _ => hanc⟩
+  | cons u rest ih =>
+    intro x p tail h hanc htail
+    obtain ⟨r0, hr0⟩ := ancestors_head e e.blocks.length p
+    have hup : u = p := by
+      rw [hr0] at hanc
+      simp only [List.cons_append, List.cons.injEq] at hanc
+      exact hanc.1.symm
+    subst hup
+    have hne : rest ++ tail ≠ [] := by
+      intro hnil
+      exact htail (List.append_eq_nil_iff.mp hnil).2
+    obtain ⟨q, r', hq⟩ : ∃ q r', rest ++ tail = q :: r' := by
+      cases hrt : rest ++ tail with
+      | nil => exact absurd hrt hne
+      | cons q r' => exact ⟨q, r', rfl⟩
+    have hanc' : ancestors e (e.blocks.length + 1) u = [u] ++ q :: r' := by
+      rw [hanc]; simp only [List.cons_append, List.nil_append, List.cons.injEq, true_and]; exact hq
+    have hpre : (e.block u).pre = some q := by
+      have hl := ancestors_linked e (e.blocks.length + 1) u
+      rw [hanc'] at hl
+      exact hl.1
+    have hancq : ancestors e (e.blocks.length + 1) q = rest ++ tail := by
+      rw [hq]; exact (ancestors_tail_eq e he.lower u q [u] r' hanc').symm
+    have hdef : walk.undoAll e prune (u :: rest) x =
+        if (!prune && decide (((e.block u).height : Int) ≤ x.irrev)) = true then (x, false)
+        else walk.undoAll e prune rest (undoBlock e x (e.block u) prune) := by
+      rw [walk.undoAll]
+    rw [hdef]
+    by_cases hc : (!prune && decide (((e.block u).height : Int) ≤ x.irrev)) = true
+    · rw [if_pos hc]
+      exact ⟨u, h, fun hf => by cases hf⟩
+    · rw [if_neg hc]
+      exact ih _ q tail (at_undoBlock e g x u q prune he h hpre) hancq htail
+
+/-- the blocks of the list are chained by their parent links, starting from `p` -/
+private def FwdLinked (e : Env) : Nat → List Nat → Prop
+  | _, [] => True
+  | p, bi :: rest => (e.block bi).pre = some p ∧ FwdLinked e bi rest
+
+private theorem fwdLinked_of_linked (e : Env) (todo : List Nat) : ∀ (c : Nat) (r2 : List Nat),
+    Linked e (todo.reverse ++ c :: r2) → FwdLinked e c todo := by
+  induction todo with
+  | nil => intro _ _ _; trivial
+  | cons t rest ih =>
+    intro c r2 hl
+    rw [List.reverse_cons, List.append_assoc] at hl
+    simp only [List.cons_append, List.nil_append] at hl
+    exact ⟨linked_last_pre e rest.reverse t c r2 hl, ih t (c :: r2) hl⟩
+
+private theorem todoAll_at (e : Env) (g : St) (lh : Int) (he : EnvOK e g) :
+    ∀ (todo : List Nat) (x : St) (p : Nat), At e g x p → FwdLinked e p todo →
+      ∃ p', At e g (walk.todoAll e lh todo x).1 p' := by
+  intro todo
+  induction todo with
+  | nil => intro x p h _; exact ⟨p, h⟩
+  | cons bi rest ih =>
+    intro x p h hf
+    unfold walk.todoAll
+    cases hx : todoBlock e x lh (e.block bi) with
+    | none => exact ⟨p, h⟩
+    | some x' => exact ih x' bi (at_todoBlock e g x x' lh p bi he h hf.1 hx) hf.2
+
+/-- **a walk that FAILS keeps the invariant**: the node is left at the block it reached (an ancestor of the old tip if an
+undo was refused at the irreversible height, a block of the destination branch if a block was refused), with an empty
+pool and the tables of the canonical state of that block -/
+private theorem inv_walk_fail (e : Env) (g s : St) (lh : Int) (dest : Nat) (prune : Bool) (he : EnvOK e g)
+    (h : Inv e g s) (hdest : dest ∈ e.blocks.map (·.1)) (hfail : (walk e s lh dest prune).2 = false) :
+    Inv e g (walk e s lh dest prune).1 := by
+  have hchain := he.chains _ h.known
+  have hR := replayChain_KVInv e _ g hchain he.kv
+  have hroll := rollback_applyPool e s.pool _ h.pool hR s h.refines
+  -- the two ancestor lists meet
+  obtain ⟨_, _, hsplit⟩ := undoTodo_split e s.pointer dest he.lower
+  have hcommon : ∃ lca r1 r2,
+      ancestors e (e.blocks.length + 1) s.pointer = (undoTodo e s.pointer dest).1 ++ lca :: r1 ∧
+      ancestors e (e.blocks.length + 1) dest = (undoTodo e s.pointer dest).2.reverse ++ lca :: r2 := by
+    rcases hsplit with ⟨_, _, hdisj⟩ | ⟨lca, r1, r2, h1, h2, _⟩
+    · exfalso
+      have hone := he.oneRoot s.pointer h.known dest hdest
+      obtain ⟨rc, hrc⟩ := ancestors_head e e.blocks.length s.pointer
+      cases hl : (ancestors e (e.blocks.length + 1) s.pointer).getLast? with
+      | none => rw [hrc] at hl; simp at hl
+      | some x =>
+        have h1 : x ∈ ancestors e (e.blocks.length + 1) s.pointer := List.mem_of_getLast? hl
+        rw [hone] at hl
+        exact hdisj x h1 (List.mem_of_getLast? hl)
+    · exact ⟨lca, r1, r2, h1, h2⟩
+  obtain ⟨lca, r1, r2, hca, hda⟩ := hcommon
+  unfold walk at hfail ⊢
+  simp only at hfail ⊢
+  have h0 : At e g ({ (s.pool.reverse.foldl (fun st i => undoTx e st (e.tx i)) s) with pool := [] } : St) s.pointer :=
+    ⟨foldl_undoTx_pointer e s.pool.reverse s, h.known,
+      hroll.of_tables ⟨rfl, rfl, rfl, rfl⟩ ⟨rfl, rfl, rfl, rfl⟩, rfl⟩
+  generalize hs0 : ({ (s.pool.reverse.foldl (fun st i => undoTx e st (e.tx i)) s) with pool := [] } : St) = s0
+    at h0 hfail ⊢
+  obtain ⟨p1, hu1, hu2⟩ := undoAll_at e g prune he (undoTodo e s.pointer dest).1 s0 s.pointer (lca :: r1) h0 hca
+    (by simp)
+  generalize hua : walk.undoAll e prune (undoTodo e s.pointer dest).1 s0 = ua at hu1 hu2 hfail ⊢
+  obtain ⟨s1, ok1⟩ := ua
+  simp only at hu1 hu2
+  by_cases hok1 : ok1 = true
+  · simp only [hok1, Bool.not_true, Bool.false_eq_true, ↓reduceIte] at hfail ⊢
+    have hp1 : p1 = lca := by
+      have := hu2 hok1
+      obtain ⟨r, hr⟩ := ancestors_head e e.blocks.length p1
+      rw [hr] at this
+      simp only [List.cons.injEq] at this
+      exact this.1
+    rw [hp1] at hu1
+    have hfl : FwdLinked e lca (undoTodo e s.pointer dest).2 := by
+      apply fwdLinked_of_linked e _ lca r2
+      rw [← hda]
+      exact ancestors_linked e _ dest
+    obtain ⟨p2, ht⟩ := todoAll_at e g lh he (undoTodo e s.pointer dest).2 s1 lca hu1 hfl
+    generalize hta : walk.todoAll e lh (undoTodo e s.pointer dest).2 s1 = ta at ht hfail ⊢
+    obtain ⟨s2, ok2⟩ := ta
+    simp only at ht
+    by_cases hok2 : ok2 = true
+    · simp [hok2] at hfail
+    · simp only [hok2, Bool.not_false, ↓reduceIte]
+      exact ht.inv
+  · simp only [hok1, Bool.not_false, ↓reduceIte]
+    exact hu1.inv
+
+/-- one operation keeps the invariant -/
+theorem step_invariant (e : Env) (g s : St) (op : HOp) (he : EnvOK e g) (h : Inv e g s) (hop : OpOK e g s op) :
+    Inv e g (hstep e s op) := by
+  cases op with
+  | submit lh i => exact inv_submit e g s lh i he h hop
+  | play lh bi => exact inv_play e g s lh bi he h
+  | playMiner lh bi => exact inv_playMiner e g s lh bi he h hop
+  | walk lh dest prune =>
+    obtain ⟨hdest, hni⟩ := hop
+    by_cases hok : (walk e s lh dest prune).2 = true
+    · exact inv_walk e g s lh dest prune he h ⟨hok, hdest, hni⟩
+    · exact inv_walk_fail e g s lh dest prune he h hdest (by simpa using hok)
+
+/-- **the closing induction: after ANY history the node is on "canonical state of its tip + pool".** Environment as in
+`EnvOK`; start state with the invariant (`genesis_inv`: the canonical state of a registered block with an empty pool —
+in particular the genesis state); a history of submissions, peers' blocks, own blocks and walks across forks, in any
+order and of any length, each operation as in `OpOK`. Then the final state points at a registered block `B` and its
+observable tables — every UTXO row, the version of every key, the total supply — are those of the replay of the chain
+genesis..`B` on a fresh node followed by the pending pool applied in admission order (`TRefines`: plus the live key table
+row by row and no recycle row that the replay does not have); and the pool is again valid there. -/
+theorem chain_refines (e : Env) (g s0 : St) (ops : List HOp) (he : EnvOK e g) (h0 : Inv e g s0)
+    (hh : HistOK e g s0 ops) : Inv e g (hrun e s0 ops) := by
+  induction ops generalizing s0 with
+  | nil => exact h0
+  | cons op rest ih =>
+    obtain ⟨h1, h2⟩ := hh
+    exact ih (hstep e s0 op) (step_invariant e g s0 op he h0 h1) h2
+
+/-- the canonical state of a registered block, with an empty pool, satisfies the invariant -/
+theorem genesis_inv (e : Env) (g : St) (p : Nat) (hp : p ∈ e.blocks.map (·.1)) :
+    Inv e g { canon e g p with pool := [], pointer := p } :=
+  ⟨hp, (TRefines.refl _).of_tables ⟨rfl, rfl, rfl, rfl⟩ ⟨rfl, rfl, rfl, rfl⟩, trivial, List.nodup_nil,
+    (fun _ hi => by cases hi), (fun _ hi => by cases hi)⟩
+
+/-- the observable reading of the invariant: same UTXO rows, same version of every key, same total as the replay of
+the chain of the tip followed by the pool -/
+theorem chain_observables (e : Env) (g s0 : St) (ops : List HOp) (he : EnvOK e g) (h0 : Inv e g s0)
+    (hh : HistOK e g s0 ops) :
+    (hrun e s0 ops).pointer ∈ e.blocks.map (·.1) ∧
+    ObsT (hrun e s0 ops) (applyPool e (hrun e s0 ops).pool (canon e g (hrun e s0 ops).pointer)) :=
+  ⟨(chain_refines e g s0 ops he h0 hh).known, (chain_refines e g s0 ops he h0 hh).refines.obs⟩
+
+-- ------------------------------------------------------------------ checkable forms, for concrete environments
+
+instance (e : Env) (i : Nat) : Decidable (TxWF e i) :=
+  decidable_of_iff ((e.tx i).id = i ∧ (∀ r ∈ (e.tx i).ins, r.tx ≠ i) ∧ koutDistinct (e.tx i))
+    ⟨fun ⟨a, b, c⟩ => ⟨a, b, c⟩, fun h => ⟨h.id, h.self, h.kout⟩⟩
+
+/-- checkable form of `BlockValid`, at ledger height `lh` -/
+def BlockCheck (e : Env) (lh : Int) (r : St) (b : Block) : Prop :=
+  (applyBlockTxs e lh b.prop [] b.txs r).map (·.2) = some .ok ∧ (∀ i ∈ b.txs, TxWF e i) ∧ b.txs.Nodup ∧
+  (∀ i ∈ b.txs, ∀ p ∈ r.U, p.1.1 ≠ i) ∧ FrozenAlong e b.prop b.txs r
+
+instance (e : Env) (lh : Int) (r : St) (b : Block) : Decidable (BlockCheck e lh r b) := by
+  unfold BlockCheck; exact inferInstance
+
+/-- checkable form of `ChainValid` -/
+def ChainCheck (e : Env) (lh : Int) : List Nat → St → Prop
+  | [], _ => True
+  | bi :: rest, r => BlockCheck e lh r (e.block bi) ∧ ChainCheck e lh rest (replayBlock e r (e.block bi))
+
+instance decChainCheck (e : Env) (lh : Int) : (l : List Nat) → (r : St) → Decidable (ChainCheck e lh l r)
+  | [], _ => isTrue trivial
+  | bi :: rest, r =>
+    have := decChainCheck e lh rest (replayBlock e r (e.block bi))
+    by unfold ChainCheck; exact inferInstance
+
+private theorem chainValid_of_check (e : Env) (lh : Int) (l : List Nat) (r : St) (h : ChainCheck e lh l r) :
+    ChainValid e l r := by
+  induction l generalizing r with
+  | nil => trivial
+  | cons bi rest ih =>
+    obtain ⟨⟨h1, h2, h3, h4, h5⟩, hr⟩ := h
+    exact ⟨⟨⟨lh, fwd_of_res _ _ _ _ _ h1⟩, h2, h3, fun i hi => absent_of_rows _ _ (h4 i hi), h5⟩, ih _ hr⟩
+
+instance (e : Env) (g s : St) (op : HOp) : Decidable (OpOK e g s op) := by
+  cases op <;> (unfold OpOK; exact inferInstance)
+
+instance decHistOK (e : Env) (g : St) : (s : St) → (ops : List HOp) → Decidable (HistOK e g s ops)
+  | _, [] => isTrue trivial
+  | s, op :: rest =>
+    have := decHistOK e g (hstep e s op) rest
+    by unfold HistOK; exact inferInstance
+
+-- non-vacuity of `chain_refines`: genesis rows (0,0) (0,1) (0,2); blocks 2 and 3 are both children of block 1, block 4
+-- a child of block 2. The history: five submissions (one more is refused: already pending), the peer's block 2 with a
+-- non-empty pool (two evictions, one pending member confirmed, two survivors), a refused block (3: not a child of the
+-- tip), a submission on top of the survivors, a walk across the fork to block 3 (which confirms 21 and 22: 22 is not
+-- re-admitted), a walk back to block 2, a refused submission (24: its input is spent), the node's own block 4 packing
+-- the whole pool, a walk to block 3 that FAILS (at ledger height -1 the inputs of block 3 count as frozen: the node is
+-- left at block 1, the common ancestor) and a walk back to block 4.
+private def hsEnv : Env := {
+  txs := prEnv.txs ++ [
+    (27, ⟨27, false, [⟨23, 0, "u3", 4, 0, false⟩], [⟨"u7", 3, 0⟩, ⟨"$", 1, 0⟩], [], []⟩),
+    (30, ⟨30, true, [], [⟨"m3", 10, 0⟩], [], []⟩),
+    (40, ⟨40, true, [], [⟨"m4", 10, 0⟩], [], []⟩)],
+  blocks := prEnv.blocks ++ [(3, ⟨3, some 1, 2, [30, 21, 22], "m3"⟩), (4, ⟨4, some 2, 3, [40, 23, 27], "m4"⟩)] }
+private def hsS0 : St := { canon hsEnv prG 1 with pool := [], pointer := 1 }
+private def hsOps : List HOp := [
+  .submit 0 21, .submit 0 22, .submit 0 21, .submit 0 23, .submit 0 24, .submit 0 26,
+  .play 0 2, .play 0 3, .submit 0 27, .walk 0 3, .walk 0 2, .submit 0 24, .playMiner 0 4,
+  .walk (-1) 3, .walk 0 4]
+
+private theorem hsEnvOK : EnvOK hsEnv prG := by
+  refine ⟨parentLower_of_blocks _ (by decide), by decide, by decide, by decide, ?_, by decide, by decide,
+    KVInv_empty _ _ rfl rfl, frozenInv_of_rows _ _ (by decide)⟩
+  intro bi hbi
+  apply chainValid_of_check _ 0
+  revert bi hbi
+  decide
+
+example : EnvOK hsEnv prG := hsEnvOK
+example : Inv hsEnv prG hsS0 := genesis_inv hsEnv prG 1 (by decide)
+example : HistOK hsEnv prG hsS0 hsOps := by decide
+-- every submitted / pending transaction of this history has a token input: nothing dynamic is assumed of it
+example : ∀ i ∈ [21, 22, 23, 24, 26, 27], (hsEnv.tx i).ins ≠ [] := by decide
+-- the theorems applied
+example : Inv hsEnv prG (hrun hsEnv hsS0 hsOps) :=
+  chain_refines hsEnv prG hsS0 hsOps hsEnvOK (genesis_inv hsEnv prG 1 (by decide)) (by decide)
+example : ObsT (hrun hsEnv hsS0 hsOps)
+    (applyPool hsEnv (hrun hsEnv hsS0 hsOps).pool (canon hsEnv prG (hrun hsEnv hsS0 hsOps).pointer)) :=
+  (chain_observables hsEnv prG hsS0 hsOps hsEnvOK (genesis_inv hsEnv prG 1 (by decide)) (by decide)).2
+example : Inv hsEnv prG (hstep hsEnv hsS0 (.submit 0 21)) :=
+  step_invariant hsEnv prG hsS0 _ hsEnvOK (genesis_inv hsEnv prG 1 (by decide)) (by decide)
+-- the conclusion, computed: the node is at block 4 with an empty pool and shows the tables of the chain 1 2 4
+example :
+    let s := hrun hsEnv hsS0 hsOps
+    let c := canon hsEnv prG 4
+    s.pointer = 4 ∧ s.pool = [] ∧ s.total = c.total ∧ (∀ k ∈ ["k", "j"], lookup s.ZU k = lookup c.ZU k) ∧
+    (∀ k ∈ s.U.map (·.1) ++ c.U.map (·.1), lookup s.U k = lookup c.U k) ∧
+    (hrun hsEnv hsS0 (hsOps.take 7)).pool = [22, 23] ∧ (hrun hsEnv hsS0 (hsOps.take 10)).pool = [23, 27] ∧
+    (hrun hsEnv hsS0 (hsOps.take 10)).pointer = 3 ∧
+    (walk hsEnv (hrun hsEnv hsS0 (hsOps.take 13)) (-1) 3 false).2 = false ∧
+    (hrun hsEnv hsS0 (hsOps.take 14)).pointer = 1 := by decide
+
+-- ================================================================== is an accepted block replayable? — not always
+
+/-- the honest formulation of "`ChainValid` of every block that gets applied": a block that `play` ACCEPTS, on a node
+whose state is "a well-formed base state `R` + a valid pool" with fresh ids everywhere, is accepted by a fresh replica
+that is at `R` (`todoBlock`: every transaction of the block admitted in block order) -/
+def accepted_block_replayable_statement : Prop :=
+  ∀ (e : Env) (s : St) (lh : Int) (b : Block) (R : St),
+    KVInv e R → PoolValid e s.pool R → s.pool.Nodup → TRefines s (applyPool e s.pool R) →
+    (∀ i ∈ s.pool ++ b.txs, ∀ o, lookup R.U (i, o) = none) →
+    (∀ i ∈ s.pool ++ b.txs, ∀ k o, curVer R k ≠ some (i, o)) →
+    FrozenInv e R → (∀ i ∈ s.pool ++ b.txs, StaticFrozen e i ∧ TxWF e i) → b.txs.Nodup →
+    (play e s lh b).2 = .ok → (todoBlock e R lh b).isSome = true
+
+-- The witness (found by random search on the executable model, to be replayed on the Go code). Base state: key "b" live at
+-- version (1,0). Pool = [10]: transaction 10 only READS "b"@(1,0) (no token part, no write). Block 2 = [99, 30, 10]: the
+-- award 99, the NEW transaction 30 that overwrites "b"@(1,0), then the pending 10. The node: nothing conflicts (10 is in the
+-- block, so it is not examined by the conflict test), 99 and 30 are admitted and applied, 10 is skipped as already applied —
+-- the block is ACCEPTED. A fresh replica applies 99, 30 and then refuses 10: its read "b"@(1,0) is stale, the key is at
+-- (30,0). The tables of the node are nevertheless those of the (unchecked) replay, because 10 writes nothing
+-- (`play_refines` needs `BlockValid` only to exclude exactly this).
+private def arEnv : Env := {
+  txs := [
+    (1, ⟨1, false, [], [], [⟨"b", none⟩], [⟨"b", "x", false⟩]⟩),
+    (10, ⟨10, false, [], [], [⟨"b", some (1, 0)⟩], []⟩),
+    (30, ⟨30, false, [], [], [⟨"b", some (1, 0)⟩], [⟨"b", "y", false⟩]⟩),
+    (99, ⟨99, true, [], [⟨"m", 7, 0⟩], [], []⟩)],
+  blocks := [(1, ⟨1, none, 1, [1], "m"⟩), (2, ⟨2, some 1, 2, [99, 30, 10], "m"⟩)] }
+private def arR : St := { ZU := [("b", (1, 0))], pointer := 1 }
+private def arS : St := { applyPool arEnv [10] arR with pool := [10] }
+
+example : (play arEnv arS 0 (arEnv.block 2)).2 = .ok ∧ (todoBlock arEnv arR 0 (arEnv.block 2)).isSome = false ∧
+    (play arEnv arS 0 (arEnv.block 2)).1.pool = [] ∧
+    curVer (play arEnv arS 0 (arEnv.block 2)).1 "b" = some (30, 0) ∧
+    admitTx (replayTxs arEnv "m" [99, 30] arR) 0 (arEnv.tx 10) = .rwset := by decide
+
+/-- **an accepted block is NOT always replayable**: the pending member of the block is skipped by the node although an
+earlier, new transaction of the block overwrote a key version it read -/
+theorem accepted_block_replayable_refuted : ¬ accepted_block_replayable_statement := by
+  intro h
+  have := h arEnv arS 0 (arEnv.block 2) arR (by apply KVInv_of_rows <;> decide)
+    ⟨⟨0, by decide⟩, ⟨by decide, by decide, by decide⟩, absent_of_rows _ _ (by decide), by decide, trivial⟩
+    (by decide) ((TRefines.refl _).of_tables ⟨rfl, rfl, rfl, rfl⟩ ⟨rfl, rfl, rfl, rfl⟩)
+    (fun i hi => absent_of_rows _ i (by revert i hi; decide))
+    (fun i hi => verFresh_of_rows _ i (by revert i hi; decide) (by revert i hi; decide))
+    (frozenInv_of_rows _ _ (by decide)) (by decide) (by decide) (by decide)
+  revert this
+  decide
+
+private theorem play_ok_nodup (e : Env) (s : St) (lh : Int) (b : Block) (hok : (play e s lh b).2 = .ok) :
+    blockHasDupInput e b.txs = false := by
+  unfold play at hok
+  by_cases h1 : b.pre ≠ some s.pointer
+  · rw [if_pos h1] at hok; cases hok
+  · rw [if_neg h1] at hok
+    by_cases h2 : blockHasDupInput e b.txs = true
+    · rw [if_pos h2] at hok; cases hok
+    · simpa using h2
+
+/-- the one test `play` does not make: no pending member of the block reads, without writing it, a key that an earlier
+transaction of the block writes -/
+def NoStaleMember (e : Env) (pool : List Nat) (b : Block) : Prop :=
+  ∀ i ∈ b.txs, ∀ a ∈ b.txs, [i, a].Sublist b.txs → a ∈ pool → ∀ pk ∈ (e.tx a).kin,
+    (∀ ko ∈ (e.tx a).kout, ko.key ≠ pk.key) → ∀ ko ∈ (e.tx i).kout, ko.key ≠ pk.key
+
+instance (e : Env) (pool : List Nat) (b : Block) : Decidable (NoStaleMember e pool b) := by
+  unfold NoStaleMember; exact inferInstance
+
+/-- **the partial version: with `NoStaleMember`, an accepted block IS replayable.** Under the hypotheses of
+`accepted_block_replayable_statement` and the missing one, a fresh replica at `R` applies every transaction of the
+block in block order — at a ledger height that is high enough for the frozen outputs the pending members spent
+(admission is monotone in the ledger height; the pending members were admitted at the heights of their submission). The
+witness of the refutation violates exactly `NoStaleMember`. -/
+theorem accepted_block_replayable_partial (e : Env) (s : St) (lh : Int) (b : Block) (R : St)
+    (hinv : KVInv e R) (hpool : PoolValid e s.pool R) (hnd : s.pool.Nodup)
+    (hs : TRefines s (applyPool e s.pool R))
+    (hfreshU : ∀ i ∈ s.pool ++ b.txs, ∀ o, lookup R.U (i, o) = none)
+    (hfreshV : ∀ i ∈ s.pool ++ b.txs, ∀ k o, curVer R k ≠ some (i, o))
+    (hfz : FrozenInv e R) (hst : ∀ i ∈ s.pool ++ b.txs, StaticFrozen e i ∧ TxWF e i) (hndB : b.txs.Nodup)
+    (hok : (play e s lh b).2 = .ok) (hro : NoStaleMember e s.pool b) :
+    ∃ lh', (todoBlock e R lh' b).isSome = true := by
+  have hP := (poolValid_iff e _ _).mp hpool
+  have hwP := hP.wf
+  obtain ⟨tE, pK, pEv⟩ := play_evict_form e s b R hP hnd (fun i hi => hfreshU i (List.mem_append_left _ hi)) hfz
+    (fun i hi => (hst i (List.mem_append_left _ hi)).1)
+  have hKV : KVInv e (applyPool e (s.pool.filter (fun i => !(playEvict e s b).contains i)) R) :=
+    applyPool_KVInv e _ _ (fun i hi => (hwP i (List.mem_filter.mp hi).1).id) hinv
+  have hs1 : TRefines (playUndone e s b)
+      (applyPool e (s.pool.filter (fun i => !(playEvict e s b).contains i)) R) := by
+    rw [playUndone_eq]
+    exact rollback_applyPool e _ _ ((poolValid_iff e _ _).mpr pEv) hKV s (hs.trans tE.trefines)
+  have hv := play_replayable_form e s lh b R hok hP hnd pK hs1
+    (fun i hi => (txWF_iff e i).mp (hst i (List.mem_append_right _ hi)).2) hndB hfreshU hfreshV
+    (fun i a hia haP => hro i (hia.subset (by simp)) a (hia.subset (by simp)) hia haP)
+  obtain ⟨lh', s2, hfwd⟩ := applyBlockTxs_of_pValid e b.prop b.txs R hv
+  refine ⟨lh', ?_⟩
+  unfold todoBlock
+  rw [play_ok_nodup e s lh b hok, hfwd]
+  rfl
+
+-- non-vacuity: the accepted block of the `play_refines` example (a pending member that writes the key it reads, a new
+-- transaction, two evictions) satisfies `NoStaleMember` and is replayable; the witness of the refutation violates it
+example : NoStaleMember prEnv prS.pool (prEnv.block 2) ∧ (play prEnv prS 0 (prEnv.block 2)).2 = .ok ∧
+    (todoBlock prEnv (canon prEnv prG 1) 0 (prEnv.block 2)).isSome = true ∧
+    ¬ NoStaleMember arEnv arS.pool (arEnv.block 2) := by decide
+example : ∀ i ∈ prS.pool ++ (prEnv.block 2).txs, StaticFrozen prEnv i ∧ TxWF prEnv i := by decide
+example : ∀ i ∈ prS.pool ++ (prEnv.block 2).txs, ∀ o, lookup (canon prEnv prG 1).U (i, o) = none :=
+  fun i hi => absent_of_rows _ i (by revert i hi; decide)
+
+-- ================================================================== walking away and back
+
+/-- after a successful walk the pool is a part of the old pool (the re-admitted transactions) -/
+private theorem walk_pool_sub (e : Env) (s : St) (lh : Int) (dest : Nat) (prune : Bool)
+    (hok : (walk e s lh dest prune).2 = true) : ∀ j ∈ (walk e s lh dest prune).1.pool, j ∈ s.pool := by
+  unfold walk at hok ⊢
+  simp only at hok ⊢
+  have hp0 : ({ (s.pool.reverse.foldl (fun st i => undoTx e st (e.tx i)) s) with pool := [] } : St).pool = [] := rfl
+  generalize hs0 : ({ (s.pool.reverse.foldl (fun st i => undoTx e st (e.tx i)) s) with pool := [] } : St) = s0
+    at hp0 hok ⊢
+  have hup := undoAll_pool e prune (undoTodo e s.pointer dest).1 s0
+  generalize hua : walk.undoAll e prune (undoTodo e s.pointer dest).1 s0 = ua at hup hok ⊢
+  obtain ⟨s1, ok1⟩ := ua
+  simp only at hup
+  by_cases hok1 : ok1 = true
+  · simp only [hok1, Bool.not_true, Bool.false_eq_true, ↓reduceIte] at hok ⊢
+    have ht := todoAll_eq e lh (undoTodo e s.pointer dest).2 s1
+    generalize hta : walk.todoAll e lh (undoTodo e s.pointer dest).2 s1 = ta at ht hok ⊢
+    obtain ⟨s2, ok2⟩ := ta
+    simp only at ht
+    by_cases hok2 : ok2 = true
+    · simp only [hok2, Bool.not_true, Bool.false_eq_true, ↓reduceIte] at hok ⊢
+      intro j hj
+      have hs2 : s2.pool = [] := by rw [ht hok2, replayChain_pool, hup, hp0]
+      rcases foldl_doTx_pool_sub e lh s.pool s2 j hj with h | h
+      · rw [hs2] at h; cases h
+      · exact h
+    · simp [hok2] at hok
+  · simp [hok1] at hok
+
+/-- **undoing cancels applying, at the level of histories**: a node that satisfies the invariant with an empty pool,
+walks (successfully) to any registered block `dest` — across a fork, undoing and applying any number of blocks — and walks
+back, shows exactly the observables it showed before: same pointer, every UTXO row, the version of every key, the total;
+the pool is still empty. (With pending transactions the same holds up to the pool: the final state satisfies the
+invariant at the old tip with the re-admitted part of the pool — `chain_refines`.) -/
+theorem undo_cancels_apply_history (e : Env) (g s : St) (lh lh' : Int) (dest : Nat) (prune prune' : Bool)
+    (he : EnvOK e g) (h : Inv e g s) (hp : s.pool = []) (hdest : dest ∈ e.blocks.map (·.1))
+    (hok1 : (walk e s lh dest prune).2 = true)
+    (hok2 : (walk e (walk e s lh dest prune).1 lh' s.pointer prune').2 = true) :
+    (walk e (walk e s lh dest prune).1 lh' s.pointer prune').1.pointer = s.pointer ∧
+    (walk e (walk e s lh dest prune).1 lh' s.pointer prune').1.pool = [] ∧
+    ObsT (walk e (walk e s lh dest prune).1 lh' s.pointer prune').1 s := by
+  have hp1 : (walk e s lh dest prune).1.pool = [] := by
+    apply List.eq_nil_iff_forall_not_mem.mpr
+    intro j hj
+    have := walk_pool_sub e s lh dest prune hok1 j hj
+    rw [hp] at this; cases this
+  have h1 : Inv e g (walk e s lh dest prune).1 :=
+    inv_walk e g s lh dest prune he h ⟨hok1, hdest, fun i hi => by rw [hp] at hi; cases hi⟩
+  have hp2 : (walk e (walk e s lh dest prune).1 lh' s.pointer prune').1.pool = [] := by
+    apply List.eq_nil_iff_forall_not_mem.mpr
+    intro j hj
+    have := walk_pool_sub e _ lh' s.pointer prune' hok2 j hj
+    rw [hp1] at this; cases this
+  have h2 : Inv e g (walk e (walk e s lh dest prune).1 lh' s.pointer prune').1 :=
+    inv_walk e g _ lh' s.pointer prune' he h1 ⟨hok2, h.known, fun i hi => by rw [hp1] at hi; cases hi⟩
+  have hpt := walk_reaches_any e _ lh' s.pointer prune' he.lower (he.blockId _ h.known) hok2
+  refine ⟨hpt, hp2, ?_⟩
+  have a := h2.refines
+  rw [hp2, hpt] at a
+  have b := h.refines
+  rw [hp] at b
+  exact a.obs.trans b.obs.symm
+
+-- non-vacuity: the node of the history example after its first eight operations' worth of blocks — here simply the
+-- canonical state of block 2 — walks across the fork to block 3 and back
+example :
+    let s : St := { canon hsEnv prG 2 with pool := [], pointer := 2 }
+    s.pool = [] ∧ 3 ∈ hsEnv.blocks.map (·.1) ∧ (walk hsEnv s 0 3 false).2 = true ∧
+    (walk hsEnv s 0 3 false).1.pointer = 3 ∧ (walk hsEnv s 0 3 false).1.U ≠ s.U ∧
+    (walk hsEnv (walk hsEnv s 0 3 false).1 0 s.pointer false).2 = true ∧
+    (∀ k ∈ s.U.map (·.1) ++ (walk hsEnv (walk hsEnv s 0 3 false).1 0 2 false).1.U.map (·.1),
+      lookup (walk hsEnv (walk hsEnv s 0 3 false).1 0 2 false).1.U k = lookup s.U k) := by decide
+example : Inv hsEnv prG { canon hsEnv prG 2 with pool := [], pointer := 2 } := genesis_inv hsEnv prG 2 (by decide)
 
 end XV.C01
